@@ -122,6 +122,90 @@ Proof.
     + apply IH; [assumption|]. intros Hin. apply Hni. right; exact Hin.
 Qed.
 
+Lemma NoDup_app_bounds : forall (l1 l2 : list N) (n : N),
+  NoDup l1 -> NoDup l2 -> (forall x, In x l1 -> (x < n)%N) -> (forall y, In y l2 -> (n <= y)%N) ->
+  NoDup (l1 ++ l2).
+Proof.
+  induction l1 as [|a l1 IH]; intros l2 n H1 H2 Hb1 Hb2; simpl; [exact H2|].
+  inversion H1; subst. constructor.
+  - intros Hin. apply in_app_or in Hin. destruct Hin as [Hin|Hin]; [contradiction|].
+    specialize (Hb1 a (or_introl eq_refl)). specialize (Hb2 a Hin). lia.
+  - apply (IH l2 n); auto. intros x Hx. apply Hb1. right; exact Hx.
+Qed.
+
+Lemma NoDup_app_sym_bounds : forall (l1 l2 : list N) (n : N),
+  NoDup l1 -> NoDup l2 -> (forall x, In x l2 -> (x < n)%N) -> (forall y, In y l1 -> (n <= y)%N) ->
+  NoDup (rev l1 ++ l2).
+Proof.
+  intros l1 l2 n H1 H2 Hb2 Hb1.
+  assert (G : forall (a b : list N), NoDup a -> NoDup b -> (forall x, In x a -> ~ In x b) -> NoDup (a ++ b)).
+  { induction a as [|x a IH]; intros b Ha Hb Hd; simpl; [exact Hb|]. inversion Ha; subst. constructor.
+    - intros Hin. apply in_app_or in Hin. destruct Hin; [contradiction|]. apply (Hd x); [left; reflexivity|assumption].
+    - apply IH; auto. intros y Hy. apply Hd. right; exact Hy. }
+  apply G; [apply NoDup_rev; exact H1|exact H2|].
+  intros x Hx Hx2. apply in_rev in Hx. specialize (Hb1 x Hx). specialize (Hb2 x Hx2). lia.
+Qed.
+
+Lemma last_default : forall {A} (l : list A) d d', l <> [] -> last l d = last l d'.
+Proof.
+  induction l as [|x l IH]; intros d d' H; [congruence|]. destruct l as [|y l]; [reflexivity|].
+  change (last (y :: l) d = last (y :: l) d'). apply IH. discriminate.
+Qed.
+
+Lemma last_cons_default : forall {A} (x : A) l d, last (x :: l) d = last l x.
+Proof. intros A x l d. destruct l as [|y l]; [reflexivity|]. change (last (y :: l) d = last (y :: l) x). apply last_default. discriminate. Qed.
+
+Lemma last_app_cons : forall {A} (l : list A) x m d, last (l ++ x :: m) d = last (x :: m) d.
+Proof.
+  induction l as [|y l IH]; intros x m d; [reflexivity|].
+  simpl app. destruct (l ++ x :: m) eqn:E; [destruct l; discriminate|]. rewrite <- E.
+  change (last (y :: l ++ x :: m) d) with (match l ++ x :: m with [] => y | _ => last (l ++ x :: m) d end).
+  rewrite E. rewrite <- E. apply IH.
+Qed.
+
+Lemma NoDup_map_filter : forall {A B} (g : A -> B) (P : A -> bool) (l : list A),
+  NoDup (map g l) -> NoDup (map g (filter P l)).
+Proof.
+  induction l as [|x l IH]; intros H; simpl in *; [constructor|]. inversion H; subst.
+  destruct (P x); simpl; [constructor|]; auto.
+  intros Hin. apply in_map_iff in Hin. destruct Hin as (y & E & Hy). apply filter_In in Hy. destruct Hy as [Hy _].
+  match goal with Hn : ~ In _ _ |- _ => apply Hn end. rewrite <- E. apply in_map. exact Hy.
+Qed.
+
+Lemma NoDup_mid : forall {A} (a m b : list A),
+  NoDup (a ++ b) -> NoDup m -> (forall x, In x m -> ~ In x (a ++ b)) -> NoDup (a ++ m ++ b).
+Proof.
+  induction a as [|x a IH]; intros m b Hab Hm Hd; simpl in *.
+  - revert Hd. induction m as [|y m IHm]; intros Hd; simpl; [exact Hab|]. inversion Hm; subst. constructor.
+    + intros Hin. apply in_app_or in Hin. destruct Hin as [Hin|Hin]; [contradiction|]. apply (Hd y); [left; reflexivity|exact Hin].
+    + apply IHm; auto. intros z Hz. apply Hd. right; exact Hz.
+  - inversion Hab; subst. constructor.
+    + intros Hin. apply in_app_or in Hin. destruct Hin as [Hin|Hin].
+      * match goal with Hn : ~ In x (a ++ b) |- _ => apply Hn end. apply in_or_app. left; exact Hin.
+      * apply in_app_or in Hin. destruct Hin as [Hin|Hin].
+        -- apply (Hd x Hin). left; reflexivity.
+        -- match goal with Hn : ~ In x (a ++ b) |- _ => apply Hn end. apply in_or_app. right; exact Hin.
+    + apply IH; auto. intros z Hz Hin. apply (Hd z Hz). right; exact Hin.
+Qed.
+
+Lemma list_set_mid : forall {A} (a b : list A) x y, list_set (a ++ x :: b) (List.length a) y = a ++ y :: b.
+Proof. induction a as [|z a IH]; intros b x y; simpl; [reflexivity|]. f_equal. apply IH. Qed.
+
+Lemma nth_error_mid : forall {A} (a b : list A) x, nth_error (a ++ x :: b) (List.length a) = Some x.
+Proof. induction a as [|z a IH]; intros b x; simpl; [reflexivity|]. apply IH. Qed.
+
+Lemma xres_fuel_dec : forall r : xres, r = XFuel \/ r <> XFuel.
+Proof. intros [| | |]; try (right; congruence). left; reflexivity. Qed.
+
+Lemma has_flow_app : forall l m fl, has_flow (l ++ m) fl = has_flow l fl || has_flow m fl.
+Proof. intros. unfold has_flow. apply existsb_app. Qed.
+
+Lemma has_flow_map : forall l l' fl, map f_flow l = map f_flow l' -> has_flow l fl = has_flow l' fl.
+Proof.
+  induction l as [|x l IH]; intros [|y l'] fl H; simpl in *; try discriminate; [reflexivity|].
+  inversion H. rewrite H1. f_equal. apply IH. assumption.
+Qed.
+
 (* "eventually": for all sufficiently large fuel *)
 Definition evl {A} (g : nat -> res A) (r : res A) : Prop := exists F, forall f, (F <= f)%nat -> g f = r.
 
@@ -869,7 +953,8 @@ Section ProgS.
     exists f0 tl, active_at f0 w kw /\ itail (f_uid f0) tl stk /\
                   (forall x, In x (f0 :: tl) -> In x L) /\
                   (forall x, In x L -> dead x \/ In x (f0 :: tl)) /\
-                  NoDup (map f_uid (f0 :: tl)).
+                  NoDup (map f_uid (f0 :: tl)) /\
+                  f_flow (last tl f0) = p_id p.          (* the bottom of the stack is the dialog flow *)
 
   Lemma dead_not_interrupted : forall x, dead x -> status_eqb (f_status x) Interrupted = false.
   Proof. intros x [E|E]; rewrite E; reflexivity. Qed.
@@ -877,7 +962,7 @@ Section ProgS.
   Lemma stack_quiet : forall L w kw stk,
     NoDup (map f_uid L) -> stack_in L w kw stk -> forall x, In x L -> quiet_fs L x.
   Proof.
-    intros L w kw stk Hnd (f0 & tl & Ha & Hit & Hsub & Hsup & Hndl) x Hx.
+    intros L w kw stk Hnd (f0 & tl & Ha & Hit & Hsub & Hsup & Hndl & _) x Hx.
     destruct (Hsup x Hx) as [Hd|[E|Hin]].
     - left. apply dead_not_interrupted. exact Hd.
     - subst x. left. destruct Ha as (Hs & _). rewrite Hs. reflexivity.
@@ -907,14 +992,18 @@ Section ProgS.
     (forall x, In x L -> dead x \/ In x pushed \/ x = fs' \/ In x tl) ->
     (forall x, In x pushed \/ x = fs' \/ In x tl -> In x L) ->
     NoDup (map f_uid (pushed ++ fs' :: tl)) ->
+    f_flow (last tl fs') = p_id p ->
     stack_in L w kw (stk1 ++ ks).
   Proof.
-    intros L pushed fs' w kw stk1 tl ks Hch Hit Hsup Hsub Hnd.
+    intros L pushed fs' w kw stk1 tl ks Hch Hit Hsup Hsub Hnd Hbot.
     destruct (chain_app_itail _ _ _ _ _ _ _ Hch Hit) as (top' & Hch').
     destruct (chain_split _ _ _ _ _ Hch') as (f0 & tl0 & El & Ha & Hit0 & _).
     exists f0, tl0. split; [exact Ha|]. split; [exact Hit0|].
     assert (Heq : f0 :: tl0 = pushed ++ fs' :: tl) by (rewrite <- El, <- app_assoc; reflexivity).
-    rewrite Heq. split; [|split; [|exact Hnd]].
+    assert (Hlast : last tl0 f0 = last tl fs').
+    { transitivity (last (f0 :: tl0) f0); [destruct tl0; reflexivity|]. rewrite Heq.
+      rewrite last_app_cons. apply last_cons_default. }
+    rewrite Heq. split; [|split; [|split; [exact Hnd|rewrite Hlast; exact Hbot]]].
     - intros x Hx. apply Hsub. apply in_app_or in Hx. destruct Hx as [Hx|[E|Hx]]; auto.
     - intros x Hx. destruct (Hsup x Hx) as [Hd|[Hp|[E|Ht]]]; [left; exact Hd| | |]; right; apply in_or_app.
       + left; exact Hp.
@@ -924,4 +1013,1266 @@ Section ProgS.
 
   Lemma list_set_twice : forall {A} (l : list A) j a b, list_set (list_set l j a) j b = list_set l j b.
   Proof. induction l; intros [|j] x y; simpl; auto. f_equal. apply IHl. Qed.
+
+  (* ---------------------------------------------------------------- resuming one caller *)
+
+  Definition resumed_result (r1 : xres) (s : state) (j : nat) (t : fstate) (pr : res state) : Prop :=
+    match r1 with
+    | XEnd c' u' =>
+        exists h n', pr = Ok (st_set_fss (end_state s c' u' n')
+                               (list_set (st_fss s) j (fs_status (fs_head (fs_intby (fs_status t Active) None) h) Completed))) /\
+                     h < 0 /\ (st_uid s <= n')%N
+    | XWait w kw stk c' u' =>
+        exists pushed fs' n',
+          pr = Ok (st_set_fss (wait_state s c' u' n' pushed w (first_uid (pushed ++ [fs']) 0%N))
+                              (list_set (st_fss s) j fs' ++ pushed)) /\
+          chain (pushed ++ [fs']) w kw stk (f_uid t) /\ f_uid fs' = f_uid t /\ f_flow fs' = f_flow t /\
+          (st_uid s <= n')%N /\ Forall (fun f => (st_uid s <= f_uid f < n')%N) pushed /\ NoDup (map f_uid pushed)
+    | XExc => pr = Exc
+    | XFuel => False
+    end.
+
+  Lemma process_resume : forall n s j t k1 a sa c u r1,
+    nth_error (st_fss s) j = Some t -> verdict (st_fss s) t = (true, sa) ->
+    interrupted_at t k1 a -> st_ctx s = c -> st_upd s = u -> st_next s = None ->
+    exec (all_flows p) n c u [] k1 = r1 -> r1 <> XFuel ->
+    exists pr, resumed_result r1 s j t pr /\ evl (fun g => process g s j t) pr.
+  Proof.
+    intros n s j t k1 a sa c u r1 Hj Hv Hint Hc Hu Hn Hr1 Hnf.
+    destruct Hint as (Hts & Htib & b & lp & Hb & Hk).
+    assert (Hjl : (j < List.length (st_fss s))%nat) by (apply nth_error_Some; congruence).
+    set (fs1 := fs_intby (fs_status t Active) None).
+    set (s1 := st_set_fss s (list_set (st_fss s) j fs1)).
+    assert (H1 : code_at (code b) (f_head t) (compile_block (rel lp (f_head t)) [])).
+    { simpl. apply code_at_nil. apply kmatch_range in Hk. exact Hk. }
+    assert (H3 : kmatch (code b) k1 (f_head t + bsize []) lp).
+    { simpl bsize. replace (f_head t + 0) with (f_head t) by lia. exact Hk. }
+    destruct (sws_gen n c u [] k1 r1 Hr1 Hnf b (f_head t) lp s1 fs1 Hb H1 eq_refl H3 Hc Hu Hn eq_refl eq_refl eq_refl)
+      as (res & Hpost & F & HF).
+    assert (Hproc : forall g, process g s j t =
+              bind (sws o g cs s1 fs1) (fun r =>
+              let '(s2, fs2) := r in
+              Ok (st_set_fss s2 (list_set (st_fss s2) j (if f_head fs2 <? 0 then fs_status fs2 Completed else fs2))))).
+    { intros g. unfold process. rewrite Hv. reflexivity. }
+    destruct r1 as [w kw stk c' u'|c' u'| |]; simpl in Hpost; try contradiction.
+    - destruct Hpost as (pushed & fs' & n' & Eres & Hch & Hu' & Hf' & Hn' & Hbd & Hnd).
+      pose proof (chain_last_head _ _ _ _ _ _ Hch) as Hhd.
+      eexists. split.
+      + simpl. exists pushed, fs', n'. split; [reflexivity|]. repeat split; auto.
+      + exists F. intros g Hg. rewrite Hproc, (HF g Hg), Eres. cbn [bind].
+        replace (f_head fs' <? 0) with false by (symmetry; apply Z.ltb_ge; exact Hhd).
+        rewrite wait_state_fss. simpl st_fss. rewrite list_set_app_l by (rewrite list_set_length; exact Hjl).
+        rewrite list_set_twice. f_equal. unfold wait_state. destruct (actionable w); reflexivity.
+    - destruct Hpost as (h & n' & Eres & Hneg & Hn').
+      eexists. split.
+      + simpl. exists h, n'. split; [reflexivity|]. split; [exact Hneg|exact Hn'].
+      + exists F. intros g Hg. rewrite Hproc, (HF g Hg), Eres. cbn [bind].
+        replace (f_head (fs_head fs1 h) <? 0) with true by (symmetry; apply Z.ltb_lt; simpl; lia).
+        simpl st_fss. rewrite list_set_twice. reflexivity.
+    - subst res. exists Exc. split; [reflexivity|]. exists F. intros g Hg. rewrite Hproc, (HF g Hg). reflexivity.
+  Qed.
+
+  (* ---------------------------------------------------------------- unwinding a completed stack *)
+
+  Definition fss_ok (s : state) : Prop :=
+    NoDup (map f_uid (st_fss s)) /\
+    Forall (fun x => (f_uid x < st_uid s)%N) (st_fss s) /\
+    Forall (fun x => exists b, flow_body (f_flow x) = Some b) (st_fss s).
+
+  Definition resume_stk (fuel : nat) (c u : ctx) (ks : list kont) : xres :=
+    match ks with [] => XEnd c u | k1 :: ks' => resume (all_flows p) fuel c u k1 ks' end.
+
+  Definition unwound (r : xres) (s : state) (i : nat) (ch : bool) : Prop :=
+    match r with
+    | XEnd c' u' => exists s', loops_to s i ch (Ok s') /\ st_ctx s' = c' /\ st_upd s' = u' /\ st_next s' = None /\
+                               fss_ok s' /\ Forall dead (st_fss s')
+    | XWait w kw stk c' u' =>
+        exists s', loops_to s i ch (Ok s') /\ st_ctx s' = c' /\ st_upd s' = u' /\
+                   st_next s' = (if actionable w then Some (elem_of_wait w) else None) /\
+                   fss_ok s' /\ stack_in (st_fss s') w kw stk /\
+                   (forall fl, has_flow (st_fss s) fl = true -> has_flow (st_fss s') fl = true)
+    | XExc => loops_to s i ch Exc
+    | XFuel => False
+    end.
+
+  Lemma resume_unwind : forall tl ks a s i ch fuel c u r,
+    fss_ok s ->
+    (exists A, In A (st_fss s) /\ f_uid A = a /\ f_status A = Completed) ->
+    itail a tl ks ->
+    (forall t, In t tl -> In t (st_fss s)) ->
+    (forall x, In x (st_fss s) -> dead x \/ In x tl) ->
+    NoDup (map f_uid tl) -> ~ In a (map f_uid tl) ->
+    (forall d, tl <> [] -> f_flow (last tl d) = p_id p) ->
+    st_ctx s = c -> st_upd s = u -> st_next s = None ->
+    (i = 0%nat \/ ch = true) ->
+    resume_stk fuel c u ks = r -> r <> XFuel ->
+    unwound r s i ch.
+  Proof.
+    induction tl as [|t tl IH]; intros ks a s i ch fuel c u r Hok HA Hit Hin Hothers Hndt Hna Hbot Hc Hu Hn Hich Hr Hnf.
+    - inversion Hit; subst. simpl. exists s.
+      split; [|split; [reflexivity|split; [reflexivity|split; [exact Hn|split; [exact Hok|]]]]].
+      + apply loops_quiet. intros j x _ Hx. left.
+        destruct (Hothers x (nth_error_In _ _ Hx)) as [Hd|[]]. apply dead_not_interrupted. exact Hd.
+      + apply Forall_forall. intros x Hx. destruct (Hothers x Hx) as [Hd|[]]. exact Hd.
+    - revert Hr Hnf. inversion Hit as [|? ? k1 ? ks0 Hint Hit']; subst. intros Hr Hnf.
+      destruct HA as (A & HAin & HAu & HAs). subst a.
+      destruct Hok as (Hnd & Hbnd & Hflows).
+      destruct (In_nth_error _ _ (Hin t (or_introl eq_refl))) as (j & Hj).
+      assert (Hjl : (j < List.length (st_fss s))%nat) by (apply nth_error_Some; congruence).
+      pose proof Hint as (Hts & Htib & Htb).
+      assert (Hv : verdict (st_fss s) t = (true, false)).
+      { unfold verdict. rewrite Htib, (find_uid_in _ A Hnd HAin), HAs. reflexivity. }
+      simpl in Hndt. apply NoDup_cons_iff in Hndt. destruct Hndt as [Htn Hndt'].
+      simpl in Hr. destruct fuel as [|f]; [simpl in Hr; congruence|].
+      cbn [resume] in Hr.
+      remember (exec (all_flows p) (S f) (st_ctx s) (st_upd s) [] k1) as r1 eqn:Er1. symmetry in Er1.
+      assert (Hr1nf : r1 <> XFuel) by (intros E; rewrite E in Hr; congruence).
+      destruct (process_resume (S f) s j t k1 (f_uid A) false _ _ r1 Hj Hv Hint eq_refl eq_refl Hn Er1 Hr1nf)
+        as (pr & Hres & Hevp).
+      (* the quietness of the other flow states and the loop step, common to all cases *)
+      assert (Hstep : forall r', (exists F, forall f1 f2, (F <= f1)%nat -> (F <= f2)%nat ->
+                          bind (process f1 s j t) (fun s2 => finish f1 f2 s2 (S j) true) = r') ->
+                        loops_to s i ch r').
+      { intros r' Hex. apply (loops_step s j t r' i ch Hj).
+        - rewrite Hts. reflexivity.
+        - rewrite Hv. congruence.
+        - intros j' y Hne Hy.
+          destruct (Hothers y (nth_error_In _ _ Hy)) as [Hd|[E|Hy']].
+          + left. apply dead_not_interrupted. exact Hd.
+          + subst y. exfalso. apply Hne. apply (nth_error_uid_inj (st_fss s) j' j t t Hnd Hy Hj eq_refl).
+          + apply (tail_others_quiet (st_fss s) (f_uid A) t k1 tl ks0 y Hnd Hit Hin Hy').
+        - intros Hlt. destruct Hich as [E|E]; [lia|exact E].
+        - exact Hex. }
+      destruct r1 as [w kw stk1 c' u'|c' u'| |]; simpl in Hres; try contradiction.
+      + (* the resumed caller blocks: the stack is t's new top plus the remaining callers *)
+        subst r. destruct Hres as (pushed & fs' & n' & Epr & Hch & Hu' & Hf' & Hn' & Hbd & Hndp).
+        set (L := list_set (st_fss s) j fs' ++ pushed).
+        set (s2 := st_set_fss (wait_state s c' u' n' pushed w (first_uid (pushed ++ [fs']) 0%N)) L) in *.
+        assert (Hmapu : map f_uid (list_set (st_fss s) j fs') = map f_uid (st_fss s)).
+        { apply list_set_map; [exact Hjl|]. intros x Hx. rewrite Hj in Hx. inversion Hx; subst. exact Hu'. }
+        assert (Hmapf : map f_flow (list_set (st_fss s) j fs') = map f_flow (st_fss s)).
+        { apply list_set_map; [exact Hjl|]. intros x Hx. rewrite Hj in Hx. inversion Hx; subst. exact Hf'. }
+        assert (HndL : NoDup (map f_uid L)).
+        { unfold L. rewrite map_app, Hmapu. apply (NoDup_app_bounds _ _ (st_uid s)); auto.
+          - intros x Hx. apply in_map_iff in Hx. destruct Hx as (y & E & Hy). subst x.
+            rewrite Forall_forall in Hbnd. apply Hbnd. exact Hy.
+          - intros x Hx. apply in_map_iff in Hx. destruct Hx as (y & E & Hy). subst x.
+            rewrite Forall_forall in Hbd. apply Hbd. exact Hy. }
+        assert (Hstack : stack_in L w kw (stk1 ++ ks0)).
+        { apply (stack_glue L pushed fs' w kw stk1 tl ks0).
+          - rewrite Hu'. exact Hch.
+          - rewrite Hu'. exact Hit'.
+          - intros x Hx. unfold L in Hx. apply in_app_or in Hx. destruct Hx as [Hx|Hx]; [|right; left; exact Hx].
+            destruct (list_set_in _ _ _ _ Hx) as [E|(jx & Hne & Hjx)]; [right; right; left; exact E|].
+            destruct (Hothers x (nth_error_In _ _ Hjx)) as [Hd|[E|Hx']]; [left; exact Hd| |right; right; right; exact Hx'].
+            subst x. exfalso. apply Hne. apply (nth_error_uid_inj (st_fss s) jx j t t Hnd Hjx Hj eq_refl).
+          - intros x [Hx|[E|Hx]]; unfold L; apply in_or_app.
+            + right; exact Hx.
+            + left. subst x. apply in_list_set_same. exact Hjl.
+            + left. destruct (In_nth_error _ _ (Hin x (or_intror Hx))) as (jx & Hjx).
+              apply (in_list_set_other _ j fs' x jx); [|exact Hjx].
+              intros E. subst jx. rewrite Hj in Hjx. inversion Hjx; subst x.
+              apply Htn. apply in_map. exact Hx.
+          - rewrite map_app. simpl map. rewrite Hu'.
+            assert (Hnd2 : NoDup (f_uid t :: map f_uid tl)) by (constructor; assumption).
+            rewrite <- (rev_involutive (map f_uid pushed)).
+            apply NoDup_app_sym_bounds with (n := st_uid s); auto.
+            + apply NoDup_rev. exact Hndp.
+            + intros x Hx. destruct Hx as [E|Hx].
+              * subst x. rewrite Forall_forall in Hbnd. apply Hbnd. apply (Hin t). left; reflexivity.
+              * apply in_map_iff in Hx. destruct Hx as (y & E & Hy). subst x.
+                rewrite Forall_forall in Hbnd. apply Hbnd. apply (Hin y). right; exact Hy.
+            + intros x Hx. apply in_rev in Hx. apply in_map_iff in Hx. destruct Hx as (y & E & Hy). subst x.
+              rewrite Forall_forall in Hbd. apply Hbd. exact Hy.
+          - destruct tl as [|t2 tl2].
+            + simpl. rewrite Hf'. apply (Hbot t). discriminate.
+            + rewrite <- (Hbot fs'); [|discriminate]. reflexivity. }
+        simpl. exists s2. split; [|split; [|split; [|split; [|split; [|split]]]]].
+        * apply Hstep. destruct Hevp as (F & HF).
+          assert (Hq : loops_to s2 (S j) true (Ok s2)).
+          { apply loops_quiet. intros j' x _ Hx. apply (stack_quiet L w kw (stk1 ++ ks0) HndL Hstack).
+            apply (nth_error_In _ _ Hx). }
+          destruct Hq as (F2 & HF2). exists (Nat.max F F2). intros f1 f2 H1 H2.
+          rewrite (HF f1) by lia. rewrite Epr. cbn [bind]. apply HF2; lia.
+        * unfold s2, wait_state. destruct (actionable w); reflexivity.
+        * unfold s2, wait_state. destruct (actionable w); reflexivity.
+        * unfold s2, wait_state. destruct (actionable w); simpl; auto.
+        * unfold fss_ok. replace (st_fss s2) with L by (unfold s2, wait_state; destruct (actionable w); reflexivity).
+          replace (st_uid s2) with n' by (unfold s2, wait_state; destruct (actionable w); reflexivity).
+          split; [exact HndL|]. split.
+          -- unfold L. apply Forall_app. split.
+             ++ apply Forall_forall. intros x Hx. destruct (list_set_in _ _ _ _ Hx) as [E|(jx & _ & Hjx)].
+                ** subst x. rewrite Hu'. rewrite Forall_forall in Hbnd. specialize (Hbnd t (nth_error_In _ _ Hj)). lia.
+                ** rewrite Forall_forall in Hbnd. specialize (Hbnd x (nth_error_In _ _ Hjx)). lia.
+             ++ eapply Forall_impl; [|exact Hbd]. simpl. intros x Hx. lia.
+          -- unfold L. apply Forall_app. split.
+             ++ apply Forall_forall. intros x Hx. destruct (list_set_in _ _ _ _ Hx) as [E|(jx & _ & Hjx)].
+                ** subst x. rewrite Hf'. rewrite Forall_forall in Hflows. apply (Hflows t (nth_error_In _ _ Hj)).
+                ** rewrite Forall_forall in Hflows. apply (Hflows x (nth_error_In _ _ Hjx)).
+             ++ pose proof (chain_flows _ _ _ _ _ Hch) as Hcf. apply Forall_app in Hcf. destruct Hcf as [Hcf _]. exact Hcf.
+        * replace (st_fss s2) with L by (unfold s2, wait_state; destruct (actionable w); reflexivity). exact Hstack.
+        * intros fl Hfl. replace (st_fss s2) with L by (unfold s2, wait_state; destruct (actionable w); reflexivity).
+          unfold L. rewrite has_flow_app, (has_flow_map _ _ fl Hmapf), Hfl. reflexivity.
+      + (* the resumed caller runs to its end: go on with its own caller *)
+        destruct Hres as (h & n' & Epr & Hneg & Hn').
+        set (tC := fs_status (fs_head (fs_intby (fs_status t Active) None) h) Completed) in *.
+        set (s2 := st_set_fss (end_state s c' u' n') (list_set (st_fss s) j tC)) in *.
+        assert (Hmapu : map f_uid (st_fss s2) = map f_uid (st_fss s)).
+        { simpl. apply list_set_map; [exact Hjl|]. intros x Hx. rewrite Hj in Hx. inversion Hx; subst. reflexivity. }
+        assert (Hmapf : map f_flow (st_fss s2) = map f_flow (st_fss s)).
+        { simpl. apply list_set_map; [exact Hjl|]. intros x Hx. rewrite Hj in Hx. inversion Hx; subst. reflexivity. }
+        assert (Hr' : resume_stk f c' u' ks0 = r) by (destruct ks0; exact Hr).
+        assert (HIH : unwound r s2 (S j) true).
+        { apply (IH ks0 (f_uid t) s2 (S j) true f c' u' r); auto.
+          - unfold fss_ok. rewrite Hmapu. split; [exact Hnd|]. split.
+            + simpl. apply Forall_forall. intros x Hx. destruct (list_set_in _ _ _ _ Hx) as [E|(jx & _ & Hjx)].
+              * subst x. simpl. rewrite Forall_forall in Hbnd. specialize (Hbnd t (nth_error_In _ _ Hj)). lia.
+              * rewrite Forall_forall in Hbnd. specialize (Hbnd x (nth_error_In _ _ Hjx)). lia.
+            + simpl. apply Forall_forall. intros x Hx. destruct (list_set_in _ _ _ _ Hx) as [E|(jx & _ & Hjx)].
+              * subst x. simpl. rewrite Forall_forall in Hflows. apply (Hflows t (nth_error_In _ _ Hj)).
+              * rewrite Forall_forall in Hflows. apply (Hflows x (nth_error_In _ _ Hjx)).
+          - exists tC. split; [apply in_list_set_same; exact Hjl|]. split; reflexivity.
+          - intros x Hx. destruct (In_nth_error _ _ (Hin x (or_intror Hx))) as (jx & Hjx).
+            apply (in_list_set_other _ j tC x jx); [|exact Hjx].
+            intros E. subst jx. rewrite Hj in Hjx. inversion Hjx; subst x.
+            apply Htn. apply in_map. exact Hx.
+          - intros x Hx. simpl in Hx. destruct (list_set_in _ _ _ _ Hx) as [E|(jx & Hne & Hjx)].
+            + subst x. left. left. reflexivity.
+            + destruct (Hothers x (nth_error_In _ _ Hjx)) as [Hd|[E|Hx']]; [left; exact Hd| |right; exact Hx'].
+              subst x. exfalso. apply Hne. apply (nth_error_uid_inj (st_fss s) jx j t t Hnd Hjx Hj eq_refl).
+          - intros d Hne. rewrite <- (Hbot d); [|discriminate]. destruct tl; [congruence|reflexivity]. }
+        assert (Hlift : forall r', loops_to s2 (S j) true r' -> loops_to s i ch r').
+        { intros r' (F2 & HF2). apply Hstep. destruct Hevp as (F & HF). exists (Nat.max F F2). intros f1 f2 H1 H2.
+          rewrite (HF f1) by lia. rewrite Epr. cbn [bind]. apply HF2; lia. }
+        destruct r as [w kw stk c3 u3|c3 u3| |]; simpl in HIH |- *; try contradiction.
+        * destruct HIH as (s' & Hl & H1 & H2 & H3 & H4 & H5 & H6). exists s'.
+          split; [apply Hlift; exact Hl|]. split; [exact H1|]. split; [exact H2|]. split; [exact H3|].
+          split; [exact H4|]. split; [exact H5|].
+          intros fl Hfl. apply H6.
+          transitivity (has_flow (st_fss s) fl); [apply (has_flow_map (st_fss s2) (st_fss s) fl Hmapf)|exact Hfl].
+        * destruct HIH as (s' & Hl & H1 & H2 & H3 & H4 & H5). exists s'.
+          split; [apply Hlift; exact Hl|]. split; [exact H1|]. split; [exact H2|]. split; [exact H3|].
+          split; [exact H4|exact H5].
+        * apply Hlift. exact HIH.
+      + (* exception while resuming *)
+        subst r pr. simpl. apply Hstep. destruct Hevp as (F & HF). exists F. intros f1 f2 H1 H2.
+        rewrite (HF f1) by lia. reflexivity.
+  Qed.
+
+  (* ---------------------------------------------------------------- phase 1 on a list in any order *)
+
+  Definition is_int (fs : fstate) : bool := status_eqb (f_status fs) Interrupted.
+  Definition kept (l : list fstate) : list fstate := filter is_int l.
+
+  Lemma phase1_app : forall f ev l1 l2 s ext,
+    phase1 o f cs ev (l1 ++ l2) s ext =
+    bind (phase1 o f cs ev l1 s ext) (fun r => let '(s1, e1) := r in phase1 o f cs ev l2 s1 e1).
+  Proof.
+    intros f ev. induction l1 as [|x l1 IH]; intros l2 s ext; [reflexivity|].
+    simpl app. cbn [phase1].
+    destruct (f_status x); try apply IH.
+    destruct (find_config cs (f_flow x)) as [cfg|]; cbn [of_opt bind]; [|reflexivity].
+    destruct (pyidx (fc_elems cfg) (f_head x)) as [hel|]; cbn [of_opt bind]; [|reflexivity].
+    destruct (negb (string_in (event_type ev) (fc_triggers cfg))).
+    - destruct (record_next_step (st_push s x) x cfg q09); cbn [bind]; [apply IH|reflexivity|reflexivity].
+    - match goal with |- bind ?X _ = _ => destruct X as [mh| |] end; cbn [bind]; try reflexivity.
+      match goal with |- match ?X with _ => _ end = _ => destruct X as [m|] end.
+      + destruct (sws o f cs s (fs_head x m)) as [[s1 fs1]| |]; cbn [bind]; try reflexivity.
+        destruct (f_head fs1 <? 0); apply IH.
+      + match goal with |- (if ?X then _ else _) = _ => destruct X end; apply IH.
+  Qed.
+
+  Lemma phase1_inactive : forall f ev l s ext,
+    Forall (fun fs => f_status fs <> Active) l ->
+    phase1 o f cs ev l s ext = Ok (st_set_fss s (st_fss s ++ kept l), ext).
+  Proof.
+    intros f ev l. induction l as [|x l IH]; intros s ext H.
+    - simpl. rewrite app_nil_r, st_set_fss_same. reflexivity.
+    - inversion H as [|? ? Hx Hl]; subst. cbn [phase1]. unfold kept. cbn [filter]. unfold is_int at 1.
+      destruct (f_status x) eqn:E; try congruence; cbn [status_eqb].
+      + rewrite (IH _ _ Hl). unfold st_push, st_set_fss. simpl. rewrite <- app_assoc. reflexivity.
+      + apply IH. exact Hl.
+      + apply IH. exact Hl.
+  Qed.
+
+  (* phase 1 on the flow state that waits on statement w *)
+  Lemma phase1_one : forall f ev fs w b s0,
+    f_status fs = Active -> flow_body (f_flow fs) = Some b ->
+    instr (code b) (f_head fs) = Some (elem_of_wait w) -> wf_wait w ->
+    phase1 o f cs ev [fs] s0 false =
+    if negb (string_in (event_type ev) default_triggers) then
+      bind (record_next_step (st_push s0 fs) fs (cfg_of (f_flow fs) b) q09) (fun s1 => Ok (s1, false))
+    else if wait_match w ev then
+      bind (sws o f cs s0 (fs_head fs (f_head fs + 1))) (fun r =>
+        let '(s1, fs1) := r in
+        if f_head fs1 <? 0 then Ok (st_push s1 (fs_status fs1 Completed), false)
+        else Ok (st_push s1 fs1, false))
+    else if actionable w then Ok (st_push s0 (fs_status fs Aborted), false)
+    else Ok (st_push s0 (fs_status fs Interrupted), false).
+  Proof.
+    intros f ev fs w b s0 Hst Hb Hi Hw.
+    pose proof (instr_lt _ _ _ Hi) as Hrg.
+    pose proof (instr_pyidx _ _ _ (proj1 Hrg) Hi) as Hpy.
+    cbn [phase1]. rewrite Hst, (find_cfg _ _ Hb). cbn [of_opt bind].
+    change (fc_elems (cfg_of (f_flow fs) b)) with (code b).
+    rewrite Hpy. cbn [of_opt bind]. change (fc_triggers (cfg_of (f_flow fs) b)) with default_triggers.
+    destruct (negb (string_in (event_type ev) default_triggers)).
+    - destruct (record_next_step (st_push s0 fs) fs (cfg_of (f_flow fs) b) q09); reflexivity.
+    - pose proof (is_match_wait w ev Hw) as Hm. pose proof (is_actionable_wait w Hw) as Ha.
+      assert (Hz : (f_head fs + 1 =? 0) = false) by (apply Z.eqb_neq; lia).
+      destruct w; cbn [elem_of_wait] in *; rewrite Hm; destruct (wait_match _ ev); cbn [bind];
+        try rewrite Hz; try rewrite Ha; cbn [bind orb negb];
+        try (destruct (sws o f cs s0 (fs_head fs (f_head fs + 1))) as [[s1 fs1]| |]; cbn [bind]; try reflexivity;
+             destruct (f_head fs1 <? 0); reflexivity);
+        try (simpl fc_interruptible; cbn [negb orb]; destruct (actionable _); reflexivity).
+  Qed.
+
+  (* ---------------------------------------------------------------- after the two loops over flows *)
+
+  Lemma fs_intby_same : forall fs, f_intby fs = None -> fs_intby fs None = fs.
+  Proof. intros [u fl h st ib] H; simpl in *; subst; reflexivity. Qed.
+
+  Lemma assign_intby_id_g : forall s,
+    (forall x, In x (st_fss s) -> is_int x = true -> f_intby x = None -> st_by s = None) ->
+    assign_intby s = s.
+  Proof.
+    intros s H. unfold assign_intby.
+    replace (map _ (st_fss s)) with (st_fss s); [apply st_set_fss_same|].
+    assert (G : forall l, (forall x, In x l -> is_int x = true -> f_intby x = None -> st_by s = None) ->
+                l = map (fun fs => if status_eqb (f_status fs) Interrupted &&
+                                     match f_intby fs with None => true | Some _ => false end
+                                   then fs_intby fs (st_by s) else fs) l).
+    { induction l as [|x l IH]; intros Hl; [reflexivity|]. simpl. f_equal.
+      - destruct (status_eqb (f_status x) Interrupted) eqn:E1; [|reflexivity].
+        destruct (f_intby x) eqn:E2; [reflexivity|]. simpl.
+        rewrite (Hl x (or_introl eq_refl) E1 E2). symmetry. apply fs_intby_same. exact E2.
+      - apply IH. intros y Hy. apply Hl. right; exact Hy. }
+    apply G. exact H.
+  Qed.
+
+  Lemma cns_tail_loop : forall f s,
+    (forall x, In x (st_fss s) -> is_int x = true -> f_intby x = None -> st_by s = None) ->
+    Forall (fun x => exists b, flow_body (f_flow x) = Some b) (st_fss s) ->
+    cns_tail p o f s false = resume_loop o f cs s.
+  Proof.
+    intros f s Hai Hfl. unfold cns_tail. cbn [bind]. rewrite (assign_intby_id_g s Hai).
+    destruct (decision_flow s) as [dfs|] eqn:Ed; [|reflexivity].
+    apply decision_flow_in in Ed. rewrite Forall_forall in Hfl. destruct (Hfl _ Ed) as (b & Hb).
+    fold cs. rewrite (find_cfg _ _ Hb). cbn [of_opt bind]. reflexivity.
+  Qed.
+
+  (* ---------------------------------------------------------------- where the running flow state sits *)
+
+  Lemma stack_partition : forall L w k stk f0 tl,
+    NoDup (map f_uid L) ->
+    active_at f0 w k -> itail (f_uid f0) tl stk ->
+    (forall x, In x (f0 :: tl) -> In x L) ->
+    (forall x, In x L -> dead x \/ In x (f0 :: tl)) ->
+    NoDup (map f_uid (f0 :: tl)) ->
+    exists l1 l2, L = l1 ++ f0 :: l2 /\
+      Forall (fun fs => f_status fs <> Active) l1 /\ Forall (fun fs => f_status fs <> Active) l2 /\
+      (forall x, In x (kept l1 ++ kept l2) <-> In x tl) /\
+      NoDup (map f_uid (kept l1 ++ kept l2)) /\
+      ~ In (f_uid f0) (map f_uid (kept l1 ++ kept l2)).
+  Proof.
+    intros L w k stk f0 tl Hnd Ha Hit Hsub Hsup Hndl.
+    destruct (in_split _ _ (Hsub f0 (or_introl eq_refl))) as (l1 & l2 & EL). subst L.
+    assert (Hnd' : NoDup (map f_uid (l1 ++ l2)) /\ ~ In (f_uid f0) (map f_uid (l1 ++ l2))).
+    { rewrite map_app in Hnd. simpl in Hnd. rewrite map_app. split.
+      - apply NoDup_remove_1 in Hnd. exact Hnd.
+      - apply NoDup_remove_2 in Hnd. exact Hnd. }
+    destruct Hnd' as [Hnd12 Hf0].
+    inversion Hndl as [|? ? Hf0tl Hndtl]; subst.
+    pose proof (itail_statuses _ _ _ Hit) as Hst. rewrite Forall_forall in Hst.
+    assert (Hel : forall x, In x (l1 ++ l2) -> dead x \/ In x tl).
+    { intros x Hx. assert (HxL : In x (l1 ++ f0 :: l2)).
+      { apply in_app_or in Hx. apply in_or_app. destruct Hx; [left|right; right]; assumption. }
+      destruct (Hsup x HxL) as [Hd|[E|Ht]]; [left; exact Hd| |right; exact Ht].
+      subst x. exfalso. apply Hf0. apply in_map. exact Hx. }
+    assert (Hna : forall x, In x (l1 ++ l2) -> f_status x <> Active).
+    { intros x Hx. destruct (Hel x Hx) as [[E|E]|Ht]; [rewrite E; discriminate|rewrite E; discriminate|].
+      rewrite (Hst _ Ht). discriminate. }
+    exists l1, l2. split; [reflexivity|]. split; [|split; [|split; [|split]]].
+    - apply Forall_forall. intros x Hx. apply Hna. apply in_or_app. left; exact Hx.
+    - apply Forall_forall. intros x Hx. apply Hna. apply in_or_app. right; exact Hx.
+    - intros x. unfold kept. rewrite <- filter_app. rewrite filter_In. split.
+      + intros [Hx Hi]. destruct (Hel x Hx) as [Hd|Ht]; [|exact Ht].
+        unfold is_int in Hi. rewrite (dead_not_interrupted _ Hd) in Hi. discriminate.
+      + intros Ht. split.
+        * assert (HxL := Hsub x (or_intror Ht)). apply in_app_or in HxL. apply in_or_app.
+          destruct HxL as [H|[E|H]]; [left; exact H| |right; exact H].
+          subst x. exfalso. apply Hf0tl. apply in_map. exact Ht.
+        * unfold is_int. rewrite (Hst _ Ht). reflexivity.
+    - unfold kept. rewrite <- filter_app. apply NoDup_map_filter. exact Hnd12.
+    - unfold kept. rewrite <- filter_app. intros Hin. apply Hf0.
+      apply in_map_iff in Hin. destruct Hin as (y & E & Hy). apply filter_In in Hy. destruct Hy as [Hy _].
+      rewrite <- E. apply in_map. exact Hy.
+  Qed.
+
+  (* the resume loop on a stack in which nothing is to be resumed *)
+  Lemma resume_loop_noint_g : forall s w k stk f,
+    NoDup (map f_uid (st_fss s)) -> stack_in (st_fss s) w k stk ->
+    (List.length (st_fss s) + 2 < f)%nat ->
+    resume_loop o f cs s = Ok s.
+  Proof.
+    intros s w k stk f Hnd Hst Hf.
+    assert (Hq : quiet_from s 0).
+    { intros j x _ Hx. apply (stack_quiet (st_fss s) w k stk Hnd Hst). apply (nth_error_In _ _ Hx). }
+    destruct f as [|f]; [lia|]. rewrite resume_loop_finish. unfold finish.
+    rewrite (resume_pass_quiet s (List.length (st_fss s)) 0 (S f) false Hq); [reflexivity|lia|lia].
+  Qed.
+
+  (* ---------------------------------------------------------------- the simulation relation *)
+
+  Definition R_g (s : state) (sp : spec_state) : Prop :=
+    st_ctx s = sp_ctx sp /\ st_upd s = sp_upd sp /\
+    st_next s = option_map elem_of_wait (sp_next sp) /\
+    (forall w, sp_next sp = Some w -> wf_wait w /\ actionable w = true) /\
+    fss_ok s /\
+    match sp_st sp with
+    | Idle => Forall dead (st_fss s)
+    | Run w k stk => stack_in (st_fss s) w k stk
+    end.
+
+  Definition res_rel_g (flat : nat -> res state) (spec : res spec_state) : Prop :=
+    match spec with
+    | Ok sp' => exists s', R_g s' sp' /\ evl flat (Ok s')
+    | Exc => evl flat Exc
+    | Fuel => True
+    end.
+
+  Lemma slide_stays_g : forall C f pc c u el,
+    instr C pc = Some el -> slide_elem el pc c u = StStay -> slide (S f) C pc c u = SOk pc c u.
+  Proof.
+    intros C f pc c u el Hi He. unfold slide. simpl. destruct (instr_nth _ _ _ Hi) as [E1 E2].
+    rewrite E1, E2, He. reflexivity.
+  Qed.
+
+  Lemma sws_at_wait_g : forall f s fs w b,
+    flow_body (f_flow fs) = Some b -> instr (code b) (f_head fs) = Some (elem_of_wait w) ->
+    sws o (S (S f)) cs s fs =
+    bind (record_next_step (st_set_ctx s (st_ctx s) (st_upd s)) (fs_head fs (f_head fs)) (cfg_of (f_flow fs) b) 1)
+         (fun s2 => Ok (s2, fs_head fs (f_head fs))).
+  Proof.
+    intros f s fs w b Hb Hi.
+    pose proof (instr_lt _ _ _ Hi) as Hrg.
+    pose proof (instr_pyidx _ _ _ (proj1 Hrg) Hi) as Hpy.
+    rewrite sws_S, (find_cfg _ _ Hb). cbn [of_opt bind]. change (fc_elems (cfg_of (f_flow fs) b)) with (code b).
+    rewrite (slide_stays_g _ f _ _ _ _ Hi (slide_elem_wait _ _ _ _)). cbv zeta.
+    replace (f_head fs >=? 0) with true by (symmetry; apply Z.geb_le; lia).
+    rewrite Hpy. cbn [of_opt bind]. destruct w; reflexivity.
+  Qed.
+
+  Section RunCtx.
+    Variables (s : state) (w : wait) (k : kont) (stk : list kont) (f0 : fstate) (tl l1 l2 : list fstate).
+    Variables (b0 : list stmt) (lp0 : option (Z * Z)).
+    Hypothesis Hok : fss_ok s.
+    Hypothesis Hst0 : f_status f0 = Active.
+    Hypothesis Hib0 : f_intby f0 = None.
+    Hypothesis Hb0 : flow_body (f_flow f0) = Some b0.
+    Hypothesis Hi0 : instr (code b0) (f_head f0) = Some (elem_of_wait w).
+    Hypothesis Hw : wf_wait w.
+    Hypothesis Hk0 : kmatch (code b0) k (f_head f0 + 1) lp0.
+    Hypothesis Hit : itail (f_uid f0) tl stk.
+    Hypothesis Hsub : forall x, In x (f0 :: tl) -> In x (st_fss s).
+    Hypothesis Hndl : NoDup (map f_uid (f0 :: tl)).
+    Hypothesis Hbot : f_flow (last tl f0) = p_id p.
+    Hypothesis EL : st_fss s = l1 ++ f0 :: l2.
+    Hypothesis Hna1 : Forall (fun fs => f_status fs <> Active) l1.
+    Hypothesis Hna2 : Forall (fun fs => f_status fs <> Active) l2.
+    Hypothesis Hkept : forall x, In x (kept l1 ++ kept l2) <-> In x tl.
+    Hypothesis Hndk : NoDup (map f_uid (kept l1 ++ kept l2)).
+    Hypothesis Hf0k : ~ In (f_uid f0) (map f_uid (kept l1 ++ kept l2)).
+
+    Let ns : state := new_state_of s.
+    Let sA : state := st_set_fss ns (kept l1).
+
+    Lemma phase1_split : forall f ev,
+      phase1 o f cs ev (st_fss s) ns false =
+      bind (phase1 o f cs ev [f0] sA false) (fun r =>
+      let '(sB, e) := r in Ok (st_set_fss sB (st_fss sB ++ kept l2), e)).
+    Proof.
+      intros f ev. rewrite EL. change (l1 ++ f0 :: l2) with (l1 ++ [f0] ++ l2).
+      rewrite phase1_app, (phase1_inactive _ _ _ _ _ Hna1). cbn [bind]. change (st_fss ns ++ kept l1) with (kept l1).
+      fold sA. rewrite phase1_app.
+      destruct (phase1 o f cs ev [f0] sA false) as [[sB e]| |]; cbn [bind]; try reflexivity.
+      apply phase1_inactive. exact Hna2.
+    Qed.
+
+    (* the new list of flow states: the kept callers around what became of f0 *)
+    Lemma mid_has_main : forall mid,
+      (exists x, In x mid /\ f_flow x = f_flow f0) ->
+      has_flow (kept l1 ++ mid ++ kept l2) (p_id p) = true.
+    Proof.
+      intros mid (x & Hx & Hfx). unfold has_flow. apply existsb_exists.
+      destruct tl as [|t tl'] eqn:Etl.
+      - exists x. split; [apply in_or_app; right; apply in_or_app; left; exact Hx|].
+        simpl in Hbot. rewrite Hfx, Hbot. apply String.eqb_refl.
+      - exists (last (t :: tl') f0). split; [|rewrite Hbot; apply String.eqb_refl].
+        assert (Hin : In (last (t :: tl') f0) (t :: tl')).
+        { clear. generalize t. induction tl' as [|y l IH]; intros t0; [left; reflexivity|].
+          right. change (last (t0 :: y :: l) f0) with (last (y :: l) f0). apply IH. }
+        apply Hkept in Hin. apply in_app_or in Hin. apply in_or_app.
+        destruct Hin as [H|H]; [left; exact H|right; apply in_or_app; right; exact H].
+    Qed.
+
+    Lemma cns_from_phase1 : forall f ev sB,
+      plain_event ev ->
+      phase1 o f cs ev [f0] sA false = Ok (sB, false) ->
+      has_flow (st_fss sB ++ kept l2) (p_id p) = true ->
+      compute_next_state o f cs s ev = cns_tail p o f (st_set_fss sB (st_fss sB ++ kept l2)) false.
+    Proof.
+      intros f ev sB Hpl H1 Hmain. unfold cs. rewrite (cns_unfold p o f s ev Hpl). fold cs. fold ns.
+      rewrite phase1_split, H1. cbn [bind]. unfold cs. rewrite phase2_present by exact Hmain. reflexivity.
+    Qed.
+
+    Lemma cns_from_phase1_exc : forall f ev,
+      plain_event ev ->
+      phase1 o f cs ev [f0] sA false = Exc ->
+      compute_next_state o f cs s ev = Exc.
+    Proof.
+      intros f ev Hpl H1. unfold cs. rewrite (cns_unfold p o f s ev Hpl). fold cs. fold ns.
+      rewrite phase1_split, H1. reflexivity.
+    Qed.
+
+    Lemma kept_props : forall x, In x (kept l1 ++ kept l2) ->
+      (f_uid x < st_uid s)%N /\ (exists b, flow_body (f_flow x) = Some b) /\ In x tl.
+    Proof.
+      intros x Hx. apply Hkept in Hx. destruct Hok as (_ & Hbnd & Hfl).
+      rewrite Forall_forall in Hbnd, Hfl. pose proof (Hsub x (or_intror Hx)) as HxL. auto.
+    Qed.
+
+    (* bookkeeping facts of the new list *)
+    Lemma newlist_ok : forall mid n',
+      NoDup (map f_uid mid) ->
+      (forall x, In x mid -> f_uid x = f_uid f0 \/ (st_uid s <= f_uid x)%N) ->
+      (forall x, In x mid -> (f_uid x < n')%N) ->
+      (forall x, In x mid -> exists b, flow_body (f_flow x) = Some b) ->
+      (st_uid s <= n')%N ->
+      NoDup (map f_uid (kept l1 ++ mid ++ kept l2)) /\
+      Forall (fun x => (f_uid x < n')%N) (kept l1 ++ mid ++ kept l2) /\
+      Forall (fun x => exists b, flow_body (f_flow x) = Some b) (kept l1 ++ mid ++ kept l2).
+    Proof.
+      intros mid n' Hndm Huid Hbm Hfm Hn'.
+      assert (Hk : forall x, In x (kept l1) \/ In x (kept l2) -> In x (kept l1 ++ kept l2)).
+      { intros x [H|H]; apply in_or_app; auto. }
+      split; [|split].
+      - rewrite !map_app. apply NoDup_mid; [rewrite <- map_app; exact Hndk|exact Hndm|].
+        intros u Hu Hin. rewrite <- map_app in Hin.
+        apply in_map_iff in Hu. destruct Hu as (x & E & Hx). subst u.
+        destruct (Huid x Hx) as [E|Hge].
+        + rewrite E in Hin. exact (Hf0k Hin).
+        + apply in_map_iff in Hin. destruct Hin as (y & E & Hy).
+          destruct (kept_props y Hy) as (Hlt & _). rewrite E in Hlt. lia.
+      - apply Forall_forall. intros x Hx. apply in_app_or in Hx. destruct Hx as [Hx|Hx].
+        + destruct (kept_props x (Hk x (or_introl Hx))) as (Hlt & _). lia.
+        + apply in_app_or in Hx. destruct Hx as [Hx|Hx]; [apply Hbm; exact Hx|].
+          destruct (kept_props x (Hk x (or_intror Hx))) as (Hlt & _). lia.
+      - apply Forall_forall. intros x Hx. apply in_app_or in Hx. destruct Hx as [Hx|Hx].
+        + destruct (kept_props x (Hk x (or_introl Hx))) as (_ & Hf & _). exact Hf.
+        + apply in_app_or in Hx. destruct Hx as [Hx|Hx]; [apply Hfm; exact Hx|].
+          destruct (kept_props x (Hk x (or_intror Hx))) as (_ & Hf & _). exact Hf.
+    Qed.
+
+    (* an interrupted flow state of a stack always names who interrupted it *)
+    Lemma stack_int_has_intby : forall L w' k' stk', stack_in L w' k' stk' ->
+      forall x, In x L -> is_int x = true -> f_intby x <> None.
+    Proof.
+      intros L w' k' stk' (g0 & tl' & Ha & Hit' & _ & Hsup & _) x Hx Hi.
+      destruct (Hsup x Hx) as [Hd|[E|Ht]].
+      - unfold is_int in Hi. rewrite (dead_not_interrupted _ Hd) in Hi. discriminate.
+      - subst x. destruct Ha as (Hs & _). unfold is_int in Hi. rewrite Hs in Hi. discriminate.
+      - destruct (itail_links _ _ _ Hit' x Ht) as (u & Hu & _). congruence.
+    Qed.
+
+    Lemma kept_int_has_intby : forall x, In x (kept l1 ++ kept l2) -> f_intby x <> None.
+    Proof.
+      intros x Hx. apply Hkept in Hx. destruct (itail_links _ _ _ Hit x Hx) as (u & Hu & _). congruence.
+    Qed.
+
+    Lemma tl_uid_facts : NoDup (map f_uid tl) /\ ~ In (f_uid f0) (map f_uid tl) /\
+                         (forall d, tl <> [] -> f_flow (last tl d) = p_id p).
+    Proof.
+      inversion Hndl; subst. split; [assumption|]. split; [assumption|].
+      intros d Hne. rewrite (last_default tl d f0 Hne). exact Hbot.
+    Qed.
+
+    Lemma tl_in_kept : forall x, In x tl -> In x (kept l1 ++ kept l2).
+    Proof. intros x Hx. apply Hkept. exact Hx. Qed.
+
+    (* the stack is unchanged: the new list holds f0 (or an equal copy g0) and the kept callers *)
+    Lemma stack_same : forall g0 mid,
+      f_status g0 = Active -> f_intby g0 = None -> f_uid g0 = f_uid f0 -> f_flow g0 = f_flow f0 ->
+      f_head g0 = f_head f0 -> mid = [g0] ->
+      stack_in (kept l1 ++ mid ++ kept l2) w k stk.
+    Proof.
+      intros g0 mid Hs Hi Hu Hf Hh Emid. subst mid.
+      exists g0, tl. split; [|split; [|split; [|split; [|split]]]].
+      - unfold active_at. split; [exact Hs|]. split; [exact Hi|]. exists b0, lp0.
+        rewrite Hf, Hh. repeat split; auto.
+      - rewrite Hu. exact Hit.
+      - intros x [E|Hx].
+        + subst x. apply in_or_app. right. left. reflexivity.
+        + apply tl_in_kept in Hx. apply in_app_or in Hx. apply in_or_app.
+          destruct Hx as [H|H]; [left; exact H|right; right; exact H].
+      - intros x Hx. right. apply in_app_or in Hx. destruct Hx as [Hx|[E|Hx]].
+        + right. apply Hkept. apply in_or_app. left; exact Hx.
+        + left. auto.
+        + right. apply Hkept. apply in_or_app. right; exact Hx.
+      - simpl. rewrite Hu. exact Hndl.
+      - destruct tl as [|t tl'] eqn:E; [simpl in *; rewrite Hf; exact Hbot|].
+        rewrite (last_default (t :: tl') g0 f0); [exact Hbot|discriminate].
+    Qed.
+
+    Lemma app_mid_assoc : forall {A} (a m b : list A), (a ++ m) ++ b = a ++ m ++ b.
+    Proof. intros. rewrite <- app_assoc. reflexivity. Qed.
+
+    (* ---- the event's type does not trigger flows: everything stays, the pending step is proposed again *)
+    Lemma run_nontrigger_g : forall ev,
+      plain_event ev ->
+      string_in (event_type ev) default_triggers = false ->
+      res_rel_g (fun f => compute_next_state o f cs s ev)
+                (Ok {| sp_st := Run w k stk; sp_ctx := st_ctx s; sp_upd := [];
+                       sp_next := if actionable w then Some w else None |}).
+    Proof.
+      intros ev Hpl Htr.
+      pose proof (instr_lt _ _ _ Hi0) as Hrg.
+      pose proof (instr_pyidx _ _ _ (proj1 Hrg) Hi0) as Hpy.
+      set (sB := if actionable w
+                 then st_set_next (st_push sA f0) (Some (elem_of_wait w)) (Some (f_uid f0))
+                                  (Qred (fc_priority (cfg_of (f_flow f0) b0) * q09))
+                 else st_push sA f0).
+      assert (Hrec : record_next_step (st_push sA f0) f0 (cfg_of (f_flow f0) b0) q09 = Ok sB).
+      { rewrite (record_next_step_fresh _ _ _ _ (elem_of_wait w)); [|reflexivity|exact Hpy].
+        rewrite (is_actionable_wait _ Hw). reflexivity. }
+      assert (HfB : st_fss sB = kept l1 ++ [f0]) by (unfold sB; destruct (actionable w); reflexivity).
+      set (L := kept l1 ++ [f0] ++ kept l2).
+      set (s' := st_set_fss sB (st_fss sB ++ kept l2)).
+      assert (HL : st_fss s' = L) by (unfold s'; simpl; rewrite HfB; apply app_mid_assoc).
+      destruct (newlist_ok [f0] (st_uid s)) as (HndL & HbL & HflL).
+      { constructor; [intros []|constructor]. }
+      { intros x [E|[]]. subst x. left; reflexivity. }
+      { intros x [E|[]]. subst x. destruct Hok as (_ & Hb & _). rewrite Forall_forall in Hb.
+        apply Hb. apply Hsub. left; reflexivity. }
+      { intros x [E|[]]. subst x. eauto. }
+      { lia. }
+      assert (Hstack : stack_in L w k stk) by (apply (stack_same f0 [f0]); auto).
+      simpl. exists s'. split.
+      - unfold R_g. cbn [sp_st sp_ctx sp_upd sp_next].
+        split; [unfold s', sB; destruct (actionable w); reflexivity|].
+        split; [unfold s', sB; destruct (actionable w); reflexivity|].
+        split; [unfold s', sB; destruct (actionable w); reflexivity|].
+        split; [intros w0 E; destruct (actionable w) eqn:Ea; inversion E; subst; auto|].
+        split.
+        + unfold fss_ok. rewrite HL. replace (st_uid s') with (st_uid s) by (unfold s', sB; destruct (actionable w); reflexivity).
+          auto.
+        + rewrite HL. exact Hstack.
+      - exists (List.length L + 3)%nat. intros f Hf.
+        rewrite (cns_from_phase1 f ev sB Hpl).
+        + fold s'. rewrite cns_tail_loop.
+          * apply resume_loop_noint_g with (w := w) (k := k) (stk := stk); rewrite ?HL; auto. lia.
+          * rewrite HL. intros x Hx Hint Hnone. exfalso.
+            exact (stack_int_has_intby L w k stk Hstack x Hx Hint Hnone).
+          * rewrite HL. exact HflL.
+        + rewrite (phase1_one f ev f0 w b0 sA Hst0 Hb0 Hi0 Hw), Htr. cbn [negb]. rewrite Hrec. reflexivity.
+        + rewrite HfB, app_mid_assoc. apply mid_has_main. exists f0. split; [left; reflexivity|reflexivity].
+    Qed.
+
+    Lemma Forall_map_iff : forall {A B} (g : A -> B) (P : B -> Prop) (l : list A),
+      Forall P (map g l) <-> Forall (fun x => P (g x)) l.
+    Proof.
+      intros A B g P l. induction l as [|x l IH]; simpl; split; intros H; try constructor;
+        inversion H; subst; auto; apply IH; assumption.
+    Qed.
+
+    (* ---- an event the flow's own bot/execute step does not wait for: the whole stack is abandoned *)
+    Lemma run_abort_g : forall ev,
+      plain_event ev ->
+      string_in (event_type ev) default_triggers = true ->
+      wait_match w ev = false -> actionable w = true ->
+      res_rel_g (fun f => compute_next_state o f cs s ev)
+                (Ok {| sp_st := Idle; sp_ctx := st_ctx s; sp_upd := []; sp_next := None |}).
+    Proof.
+      intros ev Hpl Htr Hm Hact.
+      set (fAb := fs_status f0 Aborted).
+      set (sB := st_push sA fAb).
+      set (L := kept l1 ++ [fAb] ++ kept l2).
+      set (s2 := st_set_fss sB (st_fss sB ++ kept l2)).
+      assert (HL : st_fss s2 = L) by (unfold s2, sB; simpl; apply app_mid_assoc).
+      destruct (newlist_ok [fAb] (st_uid s)) as (HndL & HbL & HflL).
+      { constructor; [intros []|constructor]. }
+      { intros x [E|[]]. subst x. left; reflexivity. }
+      { intros x [E|[]]. subst x. destruct Hok as (_ & Hb & _). rewrite Forall_forall in Hb.
+        apply (Hb f0). apply Hsub. left; reflexivity. }
+      { intros x [E|[]]. subst x. simpl. eauto. }
+      { lia. }
+      destruct tl_uid_facts as (Hndtl & Hf0tl & _).
+      destruct (abort_unwind tl stk (f_uid f0) s2 0 false) as (s' & Hloop & Hmeta & Hmu & Hmf & Hdead).
+      { rewrite HL. exact HndL. }
+      { exists fAb. rewrite HL. split; [apply in_or_app; right; left; reflexivity|]. split; reflexivity. }
+      { exact Hit. }
+      { intros t Ht. rewrite HL. apply tl_in_kept in Ht. apply in_app_or in Ht. apply in_or_app.
+        destruct Ht as [H|H]; [left; exact H|right; right; exact H]. }
+      { intros x Hx. rewrite HL in Hx. apply in_app_or in Hx. destruct Hx as [Hx|[E|Hx]].
+        - right. apply Hkept. apply in_or_app. left; exact Hx.
+        - subst x. left. right. reflexivity.
+        - right. apply Hkept. apply in_or_app. right; exact Hx. }
+      { exact Hndtl. }
+      { exact Hf0tl. }
+      { left; reflexivity. }
+      destruct Hmeta as (M1 & M2 & M3 & M4 & M5 & M6).
+      simpl. exists s'. split.
+      - unfold R_g. cbn [sp_st sp_ctx sp_upd sp_next]. simpl.
+        split; [rewrite M1; reflexivity|]. split; [rewrite M2; reflexivity|]. split; [rewrite M3; reflexivity|].
+        split; [intros w0 E; discriminate|]. split; [|exact Hdead].
+        unfold fss_ok. rewrite Hmu, M6, HL. split; [exact HndL|]. split.
+        + apply (Forall_map_iff f_uid (fun u => (u < st_uid s2)%N)). rewrite Hmu, HL.
+          apply (Forall_map_iff f_uid (fun u => (u < st_uid s2)%N)). exact HbL.
+        + apply (Forall_map_iff f_flow (fun fl => exists b, flow_body fl = Some b)). rewrite Hmf, HL.
+          apply (Forall_map_iff f_flow (fun fl => exists b, flow_body fl = Some b)). exact HflL.
+      - apply loops_to_loop in Hloop. destruct Hloop as (F & HF). exists F. intros f Hf.
+        rewrite (cns_from_phase1 f ev sB Hpl).
+        + fold s2. rewrite cns_tail_loop.
+          * apply HF. exact Hf.
+          * rewrite HL. intros x Hx Hint Hnone. exfalso. apply in_app_or in Hx. destruct Hx as [Hx|[E|Hx]].
+            -- apply (kept_int_has_intby x); [apply in_or_app; left; exact Hx|exact Hnone].
+            -- subst x. discriminate.
+            -- apply (kept_int_has_intby x); [apply in_or_app; right; exact Hx|exact Hnone].
+          * rewrite HL. exact HflL.
+        + rewrite (phase1_one f ev f0 w b0 sA Hst0 Hb0 Hi0 Hw), Htr, Hm, Hact. reflexivity.
+        + unfold sB. simpl. rewrite app_mid_assoc. apply mid_has_main. exists fAb. split; [left; reflexivity|reflexivity].
+    Qed.
+
+    (* ---- an event the flow does not wait for, while it waits for the user: it keeps waiting *)
+    Lemma run_stay_g : forall ev,
+      plain_event ev ->
+      string_in (event_type ev) default_triggers = true ->
+      wait_match w ev = false -> actionable w = false ->
+      res_rel_g (fun f => compute_next_state o f cs s ev)
+                (Ok {| sp_st := Run w k stk; sp_ctx := st_ctx s; sp_upd := []; sp_next := None |}).
+    Proof.
+      intros ev Hpl Htr Hm Hact.
+      pose proof (instr_lt _ _ _ Hi0) as Hrg.
+      pose proof (instr_pyidx _ _ _ (proj1 Hrg) Hi0) as Hpy.
+      set (fI := fs_status f0 Interrupted).
+      set (fA := fs_intby (fs_status fI Active) None).
+      set (sB := st_push sA fI).
+      set (L := kept l1 ++ [fI] ++ kept l2).
+      set (L' := kept l1 ++ [fA] ++ kept l2).
+      set (s2 := st_set_fss sB (st_fss sB ++ kept l2)).
+      set (s' := st_set_fss s2 L').
+      set (j := List.length (kept l1)).
+      assert (HL : st_fss s2 = L) by (unfold s2, sB; simpl; apply app_mid_assoc).
+      assert (Hmk : forall g, f_uid g = f_uid f0 -> f_flow g = f_flow f0 ->
+                NoDup (map f_uid (kept l1 ++ [g] ++ kept l2)) /\
+                Forall (fun x => (f_uid x < st_uid s)%N) (kept l1 ++ [g] ++ kept l2) /\
+                Forall (fun x => exists b, flow_body (f_flow x) = Some b) (kept l1 ++ [g] ++ kept l2)).
+      { intros g Hu Hf. apply (newlist_ok [g] (st_uid s)).
+        - constructor; [intros []|constructor].
+        - intros x [E|[]]. subst x. left; exact Hu.
+        - intros x [E|[]]. subst x. rewrite Hu. destruct Hok as (_ & Hb & _). rewrite Forall_forall in Hb.
+          apply (Hb f0). apply Hsub. left; reflexivity.
+        - intros x [E|[]]. subst x. rewrite Hf. eauto.
+        - lia. }
+      destruct (Hmk fI eq_refl eq_refl) as (HndL & HbL & HflL).
+      destruct (Hmk fA eq_refl eq_refl) as (HndL' & HbL' & HflL').
+      assert (Hstack' : stack_in L' w k stk) by (apply (stack_same fA [fA]); auto).
+      assert (Hj : nth_error (st_fss s2) j = Some fI) by (rewrite HL; apply nth_error_mid).
+      assert (HjL : (j < List.length L)%nat).
+      { unfold L, j. rewrite app_length. simpl. lia. }
+      assert (Hset : list_set L j fA = L') by (apply list_set_mid).
+      (* what the loop does to fI *)
+      assert (Hproc : forall g, process (S (S g)) s2 j fI = Ok s').
+      { intros g. unfold process. unfold verdict. change (f_intby fI) with (f_intby f0). rewrite Hib0.
+        cbv iota beta zeta. fold fA. rewrite HL, Hset.
+        rewrite (sws_at_wait_g g _ fA w b0 Hb0 Hi0), st_set_ctx_same, fs_head_same.
+        rewrite (record_next_step_fresh _ _ _ _ (elem_of_wait w)); [|reflexivity|exact Hpy].
+        rewrite (is_actionable_wait _ Hw), Hact. cbn [bind].
+        replace (f_head fA <? 0) with false by (symmetry; apply Z.ltb_ge; simpl; lia).
+        simpl st_fss. rewrite <- Hset, list_set_twice, Hset. reflexivity. }
+      simpl. exists s'. split.
+      - unfold R_g. cbn [sp_st sp_ctx sp_upd sp_next]. simpl.
+        split; [reflexivity|]. split; [reflexivity|]. split; [reflexivity|].
+        split; [intros w0 E; discriminate|]. split; [|exact Hstack'].
+        unfold fss_ok. simpl. auto.
+      - assert (Hloop : loops_to s2 0 false (Ok s')).
+        { apply (loops_step s2 j fI (Ok s') 0 false Hj).
+          - reflexivity.
+          - unfold verdict. change (f_intby fI) with (f_intby f0). rewrite Hib0. congruence.
+          - intros j' y Hne Hy. rewrite HL in Hy.
+            assert (HyL : In y L) by (apply (nth_error_In _ _ Hy)).
+            assert (Hyk : In y (kept l1 ++ kept l2)).
+            { unfold L in HyL. apply in_app_or in HyL. apply in_or_app. destruct HyL as [H|[E|H]]; [left; exact H| |right; exact H].
+              subst y. exfalso. apply Hne. rewrite <- HL in Hy. symmetry.
+              apply (nth_error_uid_inj (st_fss s2) j j' fI fI); [rewrite HL; exact HndL|exact Hj|exact Hy|reflexivity]. }
+            right. apply Hkept in Hyk.
+            destruct (itail_links _ _ _ Hit y Hyk) as (u & Hu & Hcase).
+            assert (Hg : exists g, In g L /\ f_uid g = u /\ f_status g = Interrupted).
+            { destruct Hcase as [E|(t' & Ht' & Eu)].
+              - exists fI. split; [apply in_or_app; right; left; reflexivity|]. split; [symmetry; exact E|reflexivity].
+              - exists t'. split.
+                + apply tl_in_kept in Ht'. apply in_app_or in Ht'. apply in_or_app.
+                  destruct Ht' as [H|H]; [left; exact H|right; right; exact H].
+                + split; [exact Eu|]. pose proof (itail_statuses _ _ _ Hit) as Hs. rewrite Forall_forall in Hs. apply Hs. exact Ht'. }
+            destruct Hg as (g & HgL & Hgu & Hgs).
+            unfold verdict. rewrite Hu, HL, <- Hgu, (find_uid_in L g HndL HgL), Hgs. reflexivity.
+          - intros Hlt. lia.
+          - assert (Hq : loops_to s' (S j) true (Ok s')).
+            { apply loops_quiet. intros j' x _ Hx. apply (stack_quiet L' w k stk HndL' Hstack').
+              apply (nth_error_In _ _ Hx). }
+            destruct Hq as (F2 & HF2). exists (F2 + 2)%nat. intros f1 f2 H1 H2.
+            destruct f1 as [|[|g]]; try lia. rewrite Hproc. cbn [bind]. apply HF2; lia. }
+        apply loops_to_loop in Hloop. destruct Hloop as (F & HF). exists F. intros f Hf.
+        rewrite (cns_from_phase1 f ev sB Hpl).
+        + fold s2. rewrite cns_tail_loop.
+          * apply HF. exact Hf.
+          * intros x Hx Hint Hnone. reflexivity.
+          * rewrite HL. exact HflL.
+        + rewrite (phase1_one f ev f0 w b0 sA Hst0 Hb0 Hi0 Hw), Htr, Hm, Hact. reflexivity.
+        + unfold sB. simpl. rewrite app_mid_assoc. apply mid_has_main. exists fI. split; [left; reflexivity|reflexivity].
+    Qed.
+
+    (* ---- the awaited event arrives: the flow advances, calls, returns *)
+    Lemma run_match_g : forall fuel ev,
+      plain_event ev ->
+      string_in (event_type ev) default_triggers = true ->
+      wait_match w ev = true ->
+      res_rel_g (fun f => compute_next_state o f cs s ev)
+                (of_xres (resume (all_flows p) fuel (st_ctx s) [] k stk)).
+    Proof.
+      intros fuel ev Hpl Htr Hm.
+      destruct fuel as [|f']; [exact I|]. cbn [resume].
+      remember (exec (all_flows p) (S f') (st_ctx s) [] [] k) as r1 eqn:Er1. symmetry in Er1.
+      destruct (xres_fuel_dec r1) as [Efu|Hr1nf]; [subst r1; rewrite Efu; exact I|].
+      pose proof (instr_lt _ _ _ Hi0) as Hrg.
+      set (f0' := fs_head f0 (f_head f0 + 1)).
+      assert (H1 : code_at (code b0) (f_head f0 + 1) (compile_block (rel lp0 (f_head f0 + 1)) [])).
+      { simpl. apply code_at_nil. apply kmatch_range in Hk0. exact Hk0. }
+      assert (H3 : kmatch (code b0) k (f_head f0 + 1 + bsize []) lp0).
+      { simpl bsize. replace (f_head f0 + 1 + 0) with (f_head f0 + 1) by lia. exact Hk0. }
+      destruct (sws_gen (S f') (st_ctx s) [] [] k r1 Er1 Hr1nf b0 (f_head f0 + 1) lp0 sA f0'
+                        Hb0 H1 eq_refl H3 eq_refl eq_refl eq_refl eq_refl Hst0 Hib0)
+        as (res & Hpost & Fs & HFs).
+      assert (Hp1 : forall f, phase1 o f cs ev [f0] sA false =
+                bind (sws o f cs sA f0') (fun r =>
+                  let '(s1, fs1) := r in
+                  if f_head fs1 <? 0 then Ok (st_push s1 (fs_status fs1 Completed), false)
+                  else Ok (st_push s1 fs1, false))).
+      { intros f. rewrite (phase1_one f ev f0 w b0 sA Hst0 Hb0 Hi0 Hw), Htr, Hm. reflexivity. }
+      destruct tl_uid_facts as (Hndtl & Hf0tl & Hbottl).
+      assert (Hf0bnd : (f_uid f0 < st_uid s)%N).
+      { destruct Hok as (_ & Hb & _). rewrite Forall_forall in Hb. apply (Hb f0). apply Hsub. left; reflexivity. }
+      destruct r1 as [w' kw stk1 c' u'|c' u'| |]; simpl in Hpost; try contradiction.
+      - (* blocks again, possibly deeper *)
+        destruct Hpost as (pushed & fs' & n' & Eres & Hch & Hu' & Hf' & Hn' & Hbd & Hndp).
+        simpl in Hu', Hf', Hn', Hbd.
+        pose proof (chain_last_head _ _ _ _ _ _ Hch) as Hhd.
+        set (sW := wait_state sA c' u' n' pushed w' (first_uid (pushed ++ [fs']) 0%N)) in *.
+        set (sB := st_push sW fs').
+        set (L := kept l1 ++ (pushed ++ [fs']) ++ kept l2).
+        set (s' := st_set_fss sB (st_fss sB ++ kept l2)).
+        assert (HfB : st_fss sB = kept l1 ++ (pushed ++ [fs'])).
+        { unfold sB, sW, st_push. simpl. rewrite wait_state_fss. simpl. rewrite <- app_assoc. reflexivity. }
+        assert (HL : st_fss s' = L).
+        { change (st_fss s') with (st_fss sB ++ kept l2). rewrite HfB. apply app_mid_assoc. }
+        destruct (newlist_ok (pushed ++ [fs']) n') as (HndL & HbL & HflL).
+        { rewrite map_app. simpl. apply NoDup_app_snoc_uid; [exact Hndp|].
+          intros Hin. apply in_map_iff in Hin. destruct Hin as (y & E & Hy).
+          rewrite Forall_forall in Hbd. specialize (Hbd y Hy). rewrite E, Hu' in Hbd. lia. }
+        { intros x Hx. apply in_app_or in Hx. destruct Hx as [Hx|[E|[]]].
+          - right. rewrite Forall_forall in Hbd. specialize (Hbd x Hx). lia.
+          - subst x. left. exact Hu'. }
+        { intros x Hx. apply in_app_or in Hx. destruct Hx as [Hx|[E|[]]].
+          - rewrite Forall_forall in Hbd. specialize (Hbd x Hx). lia.
+          - subst x. rewrite Hu'. lia. }
+        { intros x Hx. pose proof (chain_flows _ _ _ _ _ Hch) as Hcf. rewrite Forall_forall in Hcf. apply Hcf. exact Hx. }
+        { exact Hn'. }
+        assert (Hstack : stack_in L w' kw (stk1 ++ stk)).
+        { apply (stack_glue L pushed fs' w' kw stk1 tl stk).
+          - rewrite Hu'. exact Hch.
+          - rewrite Hu'. exact Hit.
+          - intros x Hx. unfold L in Hx. apply in_app_or in Hx. destruct Hx as [Hx|Hx].
+            + right. right. right. apply Hkept. apply in_or_app. left; exact Hx.
+            + apply in_app_or in Hx. destruct Hx as [Hx|Hx].
+              * apply in_app_or in Hx. destruct Hx as [Hx|[E|[]]]; [right; left; exact Hx|right; right; left; auto].
+              * right. right. right. apply Hkept. apply in_or_app. right; exact Hx.
+          - intros x [Hx|[E|Hx]]; unfold L; apply in_or_app.
+            + right. apply in_or_app. left. apply in_or_app. left; exact Hx.
+            + right. apply in_or_app. left. apply in_or_app. right. left. auto.
+            + apply tl_in_kept in Hx. apply in_app_or in Hx. destruct Hx as [H|H]; [left; exact H|].
+              right. apply in_or_app. right; exact H.
+          - rewrite map_app. simpl map. rewrite Hu'.
+            rewrite <- (rev_involutive (map f_uid pushed)).
+            apply NoDup_app_sym_bounds with (n := st_uid s).
+            + apply NoDup_rev. exact Hndp.
+            + exact Hndl.
+            + intros x [E|Hx]; [subst x; exact Hf0bnd|].
+              apply in_map_iff in Hx. destruct Hx as (y & E & Hy). subst x.
+              destruct Hok as (_ & Hb & _). rewrite Forall_forall in Hb. apply Hb. apply Hsub. right; exact Hy.
+            + intros x Hx. apply in_rev in Hx. apply in_map_iff in Hx. destruct Hx as (y & E & Hy). subst x.
+              rewrite Forall_forall in Hbd. specialize (Hbd y Hy). lia.
+          - destruct tl as [|t tl'] eqn:Etl.
+            + simpl. rewrite Hf'. exact Hbot.
+            + rewrite (last_default (t :: tl') fs' f0); [exact Hbot|discriminate]. }
+        cbn [of_xres]. simpl. exists s'. split.
+        + unfold R_g. cbn [sp_st sp_ctx sp_upd sp_next].
+          destruct (wait_state_ctx sA c' u' n' pushed w' (first_uid (pushed ++ [fs']) 0%N)) as (E1 & E2 & E3).
+          split; [exact E1|]. split; [exact E2|]. split.
+          * change (st_next s') with (st_next sW). unfold sW. rewrite wait_state_next by reflexivity.
+            destruct (actionable w'); reflexivity.
+          * split.
+            -- intros w0 E. destruct (actionable w') eqn:Ea; inversion E; subst.
+               split; [|exact Ea]. destruct (chain_split _ _ _ _ _ Hch) as (g0 & tl0 & _ & Ha0 & _).
+               destruct Ha0 as (_ & _ & bb & lpp & _ & _ & Hww & _). exact Hww.
+            -- split; [|rewrite HL; exact Hstack].
+               unfold fss_ok. rewrite HL. change (st_uid s') with (st_uid sW). unfold sW. rewrite E3. auto.
+        + exists (Nat.max Fs (List.length L + 3)). intros f Hf.
+          rewrite (cns_from_phase1 f ev sB Hpl).
+          * fold s'. rewrite cns_tail_loop.
+            -- apply resume_loop_noint_g with (w := w') (k := kw) (stk := stk1 ++ stk); rewrite ?HL; auto. lia.
+            -- rewrite HL. intros x Hx Hint Hnone. exfalso.
+               exact (stack_int_has_intby L w' kw (stk1 ++ stk) Hstack x Hx Hint Hnone).
+            -- rewrite HL. exact HflL.
+          * rewrite Hp1, (HFs f) by lia. rewrite Eres. cbn [bind].
+            replace (f_head fs' <? 0) with false by (symmetry; apply Z.ltb_ge; exact Hhd). reflexivity.
+          * rewrite HfB, app_mid_assoc. apply mid_has_main. exists fs'.
+            split; [apply in_or_app; right; left; reflexivity|exact Hf'].
+      - (* the flow body ends: return to the callers *)
+        destruct Hpost as (h & n' & Eres & Hneg & Hn'). simpl in Hn'.
+        set (fC := fs_status (fs_head f0' h) Completed).
+        set (sE := end_state sA c' u' n') in *.
+        set (sB := st_push sE fC).
+        set (L := kept l1 ++ [fC] ++ kept l2).
+        set (s2 := st_set_fss sB (st_fss sB ++ kept l2)).
+        assert (HL : st_fss s2 = L) by (unfold s2, sB; simpl; apply app_mid_assoc).
+        destruct (newlist_ok [fC] n') as (HndL & HbL & HflL).
+        { constructor; [intros []|constructor]. }
+        { intros x [E|[]]. subst x. left; reflexivity. }
+        { intros x [E|[]]. subst x. simpl. lia. }
+        { intros x [E|[]]. subst x. simpl. eauto. }
+        { exact Hn'. }
+        remember (match stk with [] => XEnd c' u' | k2 :: stk2 => resume (all_flows p) f' c' u' k2 stk2 end) as rs eqn:Ers.
+        destruct (xres_fuel_dec rs) as [Efu|Hrsnf]; [rewrite Efu; exact I|].
+        assert (Hun : unwound rs s2 0 false).
+        { apply (resume_unwind tl stk (f_uid f0) s2 0 false f' c' u' rs).
+          - unfold fss_ok. rewrite HL. simpl. auto.
+          - exists fC. rewrite HL. split; [apply in_or_app; right; left; reflexivity|]. split; reflexivity.
+          - exact Hit.
+          - intros t Ht. rewrite HL. apply tl_in_kept in Ht. apply in_app_or in Ht. apply in_or_app.
+            destruct Ht as [H|H]; [left; exact H|right; right; exact H].
+          - intros x Hx. rewrite HL in Hx. apply in_app_or in Hx. destruct Hx as [Hx|[E|Hx]].
+            + right. apply Hkept. apply in_or_app. left; exact Hx.
+            + subst x. left. left. reflexivity.
+            + right. apply Hkept. apply in_or_app. right; exact Hx.
+          - exact Hndtl.
+          - exact Hf0tl.
+          - exact Hbottl.
+          - reflexivity.
+          - reflexivity.
+          - reflexivity.
+          - left; reflexivity.
+          - subst rs. destruct stk; reflexivity.
+          - exact Hrsnf. }
+        assert (Hcns : forall f, (Fs <= f)%nat -> compute_next_state o f cs s ev = resume_loop o f cs s2).
+        { intros f Hf. rewrite (cns_from_phase1 f ev sB Hpl).
+          - fold s2. apply cns_tail_loop.
+            + rewrite HL. intros x Hx Hint Hnone. exfalso. apply in_app_or in Hx. destruct Hx as [Hx|[E|Hx]].
+              * apply (kept_int_has_intby x); [apply in_or_app; left; exact Hx|exact Hnone].
+              * subst x. discriminate.
+              * apply (kept_int_has_intby x); [apply in_or_app; right; exact Hx|exact Hnone].
+            + rewrite HL. exact HflL.
+          - rewrite Hp1, (HFs f) by lia. rewrite Eres. cbn [bind].
+            replace (f_head (fs_head f0' h) <? 0) with true by (symmetry; apply Z.ltb_lt; simpl; lia). reflexivity.
+          - unfold sB. simpl. rewrite app_mid_assoc. apply mid_has_main. exists fC. split; [left; reflexivity|reflexivity]. }
+        assert (Hlift : forall r', loops_to s2 0 false r' -> evl (fun f => compute_next_state o f cs s ev) r').
+        { intros r' Hl. apply loops_to_loop in Hl. destruct Hl as (F & HF). exists (Nat.max F Fs). intros f Hf.
+          rewrite Hcns by lia. apply HF. lia. }
+        destruct rs as [w' kw stk' c3 u3|c3 u3| |]; simpl in Hun; try contradiction; cbn [of_xres res_rel_g].
+        + destruct Hun as (s' & Hl & E1 & E2 & E3 & Hok' & Hst' & _). exists s'. split; [|apply Hlift; exact Hl].
+          unfold R_g. cbn [sp_st sp_ctx sp_upd sp_next].
+          split; [exact E1|]. split; [exact E2|]. split; [rewrite E3; destruct (actionable w'); reflexivity|].
+          split; [|split; [exact Hok'|exact Hst']].
+          intros w0 E. destruct (actionable w') eqn:Ea; inversion E; subst. split; [|exact Ea].
+          destruct Hst' as (g0 & tl0 & Ha0 & _). destruct Ha0 as (_ & _ & bb & lpp & _ & _ & Hww & _). exact Hww.
+        + destruct Hun as (s' & Hl & E1 & E2 & E3 & Hok' & Hd'). exists s'. split; [|apply Hlift; exact Hl].
+          unfold R_g. cbn [sp_st sp_ctx sp_upd sp_next].
+          split; [exact E1|]. split; [exact E2|]. split; [exact E3|]. split; [intros w0 E; discriminate|].
+          split; [exact Hok'|exact Hd'].
+        + apply Hlift. exact Hun.
+      - (* exception *)
+        subst res. cbn [of_xres res_rel_g]. exists Fs. intros f Hf.
+        apply (cns_from_phase1_exc f ev Hpl). rewrite Hp1, (HFs f) by lia. reflexivity.
+    Qed.
+  End RunCtx.
+
+  (* ---------------------------------------------------------------- no instance is running *)
+
+  Lemma idle_event_g : forall fuel s ev i0 rest0,
+    plain_event ev -> p_main p = SUser i0 :: rest0 ->
+    fss_ok s -> Forall dead (st_fss s) ->
+    res_rel_g (fun f => compute_next_state o f cs s ev)
+              (if wait_match (WUser i0) ev
+               then of_xres (exec (all_flows p) fuel (st_ctx s) [] rest0 KDone)
+               else Ok {| sp_st := Idle; sp_ctx := st_ctx s; sp_upd := []; sp_next := None |}).
+  Proof.
+    intros fuel s ev i0 rest0 Hpl Emain Hok Hdead.
+    destruct wf_parts as ((i0' & rest0' & E' & Hwr) & _ & _). rewrite Emain in E'. inversion E'; subst i0' rest0'.
+    set (Cm := code (p_main p)).
+    assert (ECm : Cm = LUser i0 :: compile_block None rest0) by (unfold Cm, code; rewrite Emain; reflexivity).
+    set (ns := new_state_of s).
+    assert (Hi0 : instr Cm 0 = Some (elem_of_wait (WUser i0))) by (rewrite ECm; reflexivity).
+    assert (Hpy0 : pyidx Cm 0 = Some (LUser i0)) by (apply instr_pyidx; [lia|exact Hi0]).
+    set (fs0 := new_fstate (st_uid ns) (p_id p) 1).
+    set (s2 := st_push (st_bump_uid ns) fs0).
+    assert (Hpre : forall f, (1 <= f)%nat ->
+              compute_next_state o f cs s ev =
+              bind (if wait_match (WUser i0) ev then
+                      bind (sws o f cs s2 fs0) (fun r =>
+                      let '(s3, fs') := r in
+                      Ok (st_set_fss s3 (list_set (st_fss s3) 0
+                            (if o_mark o && (f_head fs' <? 0) then fs_status fs' Completed else fs'))))
+                    else Ok ns) (fun s2 => cns_tail p o f s2 false)).
+    { intros f Hf. destruct f as [|f]; [lia|].
+      unfold cs. rewrite (cns_unfold p o (S f) s ev Hpl). rewrite (phase1_dead _ _ _ _ _ _ _ Hdead). cbn [bind]. fold ns.
+      rewrite (cs_eq p) at 2. cbn [phase2]. cbn [fc_subflow mk_config fc_multiple fc_elems fc_id].
+      change (st_fss ns) with (@nil fstate). cbn [has_flow existsb negb andb].
+      change (compile_block None (p_main p)) with Cm.
+      rewrite (slide_stays_g Cm f 0 (st_ctx ns) (st_upd ns) _ Hi0 eq_refl). cbv zeta.
+      rewrite Hpy0. cbn [of_opt bind].
+      change (is_match (LUser i0) ev) with (is_match (elem_of_wait (WUser i0)) ev).
+      rewrite (is_match_wait (WUser i0) ev I).
+      change (st_set_ctx ns (st_ctx ns) (st_upd ns)) with ns.
+      change (0 + 1) with 1. cbn [List.length]. fold fs0. fold s2.
+      destruct (wait_match (WUser i0) ev).
+      - destruct (sws o (S f) (compile_prog p) s2 fs0) as [[s3 fs']| |]; cbn [bind]; try reflexivity.
+        rewrite (phase2_subflows _ _ _ _ _ _ (subs_all_subflow p)). reflexivity.
+      - rewrite (phase2_subflows _ _ _ _ _ _ (subs_all_subflow p)). reflexivity. }
+    destruct (wait_match (WUser i0) ev) eqn:Em.
+    - (* the flow starts *)
+      remember (exec (all_flows p) fuel (st_ctx s) [] rest0 KDone) as r1 eqn:Er1. symmetry in Er1.
+      destruct (xres_fuel_dec r1) as [Efu|Hr1nf]; [rewrite Efu; exact I|].
+      assert (H1 : code_at (code (p_main p)) 1 (compile_block (rel None 1) rest0)).
+      { fold Cm. rewrite ECm. change (LUser i0 :: compile_block None rest0) with ([LUser i0] ++ compile_block None rest0).
+        apply (code_at_app_r _ 0 [LUser i0]). apply code_at_whole. }
+      assert (H3 : kmatch (code (p_main p)) KDone (1 + bsize rest0) None).
+      { apply km_done. fold Cm. rewrite ECm, zlen_cons, compile_block_length. reflexivity. }
+      destruct (sws_gen fuel (st_ctx s) [] rest0 KDone r1 Er1 Hr1nf (p_main p) 1 None s2 fs0
+                        main_body H1 Hwr H3 eq_refl eq_refl eq_refl eq_refl eq_refl eq_refl)
+        as (res & Hpost & Fs & HFs).
+      destruct r1 as [w' kw stk1 c' u'|c' u'| |]; simpl in Hpost; try contradiction; cbn [of_xres res_rel_g].
+      + destruct Hpost as (pushed & fs' & n' & Eres & Hch & Hu' & Hf' & Hn' & Hbd & Hndp).
+        simpl in Hu', Hf', Hn', Hbd.
+        pose proof (chain_last_head _ _ _ _ _ _ Hch) as Hhd.
+        set (sW := wait_state s2 c' u' n' pushed w' (first_uid (pushed ++ [fs']) 0%N)) in *.
+        set (L := fs' :: pushed).
+        set (s' := st_set_fss sW L).
+        assert (HndL : NoDup (map f_uid L)).
+        { simpl. constructor; [|exact Hndp]. intros Hin. apply in_map_iff in Hin. destruct Hin as (y & E & Hy).
+          rewrite Forall_forall in Hbd. specialize (Hbd y Hy). rewrite E, Hu' in Hbd. lia. }
+        assert (HndC : NoDup (map f_uid (pushed ++ [fs']))).
+        { rewrite map_app. simpl. apply NoDup_app_snoc_uid; [exact Hndp|].
+          intros Hin. apply in_map_iff in Hin. destruct Hin as (y & E & Hy).
+          rewrite Forall_forall in Hbd. specialize (Hbd y Hy). rewrite E, Hu' in Hbd. lia. }
+        assert (Hstack : stack_in L w' kw stk1).
+        { destruct (chain_split _ _ _ _ _ Hch) as (g0 & tl0 & El & Ha0 & Hit0 & _).
+          exists g0, tl0. split; [exact Ha0|]. split; [exact Hit0|]. rewrite <- El.
+          split; [|split; [|split; [exact HndC|]]].
+          - intros x Hx. apply in_app_or in Hx. destruct Hx as [Hx|[E|[]]]; [right; exact Hx|left; auto].
+          - intros x [E|Hx]; right; apply in_or_app; [right; left; auto|left; exact Hx].
+          - transitivity (f_flow (last (g0 :: tl0) g0)); [destruct tl0; reflexivity|].
+            rewrite <- El. rewrite last_app_cons. simpl. exact Hf'. }
+        exists s'. split.
+        * unfold R_g. cbn [sp_st sp_ctx sp_upd sp_next].
+          destruct (wait_state_ctx s2 c' u' n' pushed w' (first_uid (pushed ++ [fs']) 0%N)) as (E1 & E2 & E3).
+          split; [exact E1|]. split; [exact E2|]. split.
+          -- change (st_next s') with (st_next sW). unfold sW. rewrite wait_state_next by reflexivity.
+             destruct (actionable w'); reflexivity.
+          -- split.
+             ++ intros w0 E. destruct (actionable w') eqn:Ea; inversion E; subst. split; [|exact Ea].
+                destruct Hstack as (g0 & tl0 & Ha0 & _). destruct Ha0 as (_ & _ & bb & lpp & _ & _ & Hww & _). exact Hww.
+             ++ split; [|exact Hstack]. unfold fss_ok. change (st_fss s') with L. change (st_uid s') with (st_uid sW).
+                unfold sW. rewrite E3. split; [exact HndL|]. split.
+                ** constructor; [rewrite Hu'; lia|]. eapply Forall_impl; [|exact Hbd]. simpl. intros x Hx. lia.
+                ** pose proof (chain_flows _ _ _ _ _ Hch) as Hcf. apply Forall_app in Hcf. destruct Hcf as [Hc1 Hc2].
+                   inversion Hc2; subst. constructor; assumption.
+        * exists (Nat.max Fs (List.length L + 3)). intros f Hf. rewrite Hpre by lia. rewrite (HFs f) by lia.
+          rewrite Eres. cbn [bind].
+          replace (f_head fs' <? 0) with false by (symmetry; apply Z.ltb_ge; exact Hhd).
+          rewrite andb_false_r.
+          assert (HfW : st_fss sW = fs0 :: pushed) by (unfold sW; rewrite wait_state_fss; reflexivity).
+          rewrite HfW. cbn [list_set]. fold L. fold s'.
+          rewrite cns_tail_loop.
+          -- apply resume_loop_noint_g with (w := w') (k := kw) (stk := stk1); auto. change (st_fss s') with L. lia.
+          -- intros x Hx Hint Hnone. exfalso. exact (stack_int_has_intby L w' kw stk1 Hstack x Hx Hint Hnone).
+          -- change (st_fss s') with L. pose proof (chain_flows _ _ _ _ _ Hch) as Hcf. apply Forall_app in Hcf.
+             destruct Hcf as [Hc1 Hc2]. inversion Hc2; subst. constructor; assumption.
+      + destruct Hpost as (h & n' & Eres & Hneg & Hn'). simpl in Hn'.
+        set (fC := fs_status (fs_head fs0 h) Completed).
+        set (s' := st_set_fss (end_state s2 c' u' n') [fC]).
+        exists s'. split.
+        * unfold R_g. cbn [sp_st sp_ctx sp_upd sp_next]. simpl.
+          split; [reflexivity|]. split; [reflexivity|]. split; [reflexivity|]. split; [intros w0 E; discriminate|].
+          split.
+          -- unfold fss_ok. simpl. split; [constructor; [intros []|constructor]|]. split.
+             ++ constructor; [change (f_uid fC) with (st_uid s); lia|constructor].
+             ++ constructor; [|constructor]. exists (p_main p). exact main_body.
+          -- constructor; [left; reflexivity|constructor].
+        * exists (Nat.max Fs 4). intros f Hf. rewrite Hpre by lia. rewrite (HFs f) by lia. rewrite Eres. cbn [bind].
+          replace (f_head (fs_head fs0 h) <? 0) with true by (symmetry; apply Z.ltb_lt; simpl; lia).
+          rewrite Hmark. cbn [andb]. change (st_fss (end_state s2 c' u' n')) with [fs0]. cbn [list_set]. fold fC. fold s'.
+          rewrite cns_tail_loop.
+          -- apply resume_loop_noint; [simpl; constructor; [reflexivity|constructor]|simpl; lia].
+          -- intros x [E|[]] Hint. subst x. discriminate.
+          -- simpl. constructor; [|constructor]. exists (p_main p). exact main_body.
+      + subst res. exists (S Fs). intros f Hf. rewrite Hpre by lia.
+        rewrite (HFs f) by lia. reflexivity.
+    - (* nothing starts *)
+      cbn [res_rel_g]. exists ns. split.
+      + unfold R_g. cbn [sp_st sp_ctx sp_upd sp_next]. simpl.
+        split; [reflexivity|]. split; [reflexivity|]. split; [reflexivity|]. split; [intros w0 E; discriminate|].
+        split; [|constructor]. unfold fss_ok. simpl. split; [constructor|]. split; constructor.
+      + exists 3%nat. intros f Hf. rewrite Hpre by lia. cbn [bind].
+        rewrite cns_tail_loop.
+        * apply resume_loop_noint; [constructor|simpl; lia].
+        * intros x [].
+        * constructor.
+  Qed.
+
+  (* ---------------------------------------------------------------- one event, whole histories *)
+
+  Lemma cns_sim_g : forall fuel s sp ev,
+    R_g s sp -> ev <> EvHide ->
+    res_rel_g (fun f => compute_next_state o f cs s ev) (spec_event fuel p sp ev).
+  Proof.
+    intros fuel s sp ev HR Hev.
+    destruct HR as (Hc & Hu & Hn & Hnw & Hok & Hshape).
+    destruct ev; try congruence.
+    5:{ cbn [spec_event compute_next_state res_rel_g].
+        eexists. split; [|apply evl_const].
+        unfold R_g. cbn [sp_st sp_ctx sp_upd sp_next st_ctx st_upd st_next st_fss option_map].
+        rewrite Hc. split; [reflexivity|split; [reflexivity|split; [reflexivity|split; [|split; [exact Hok|exact Hshape]]]]].
+        intros w E; discriminate. }
+    4:{ cbn [spec_event compute_next_state res_rel_g]. exists s. split; [|apply evl_const].
+        unfold R_g. split; [exact Hc|split; [exact Hu|split; [exact Hn|split; [exact Hnw|split; [exact Hok|exact Hshape]]]]]. }
+    all: cbn [spec_event].
+    all: revert Hshape; destruct (sp_st sp) as [|w k stk] eqn:Est; intros Hshape.
+    all: try (match goal with
+              | |- res_rel_g (fun f => compute_next_state _ f _ _ ?e) _ =>
+                  destruct wf_parts as ((i0 & rest0 & Emain & Hwr) & _ & _); rewrite Emain;
+                  rewrite <- Hc; apply (idle_event_g fuel s e i0 rest0 I Emain Hok Hshape)
+              end).
+    all: destruct Hshape as (f0 & tl & Ha & Hit & Hsub & Hsup & Hndl & Hbot);
+         pose proof Ha as (Hst0 & Hib0 & b0 & lp0 & Hb0 & Hi0 & Hw & Hk0);
+         pose proof Hok as (Hnd & Hbnd & Hfl);
+         destruct (stack_partition (st_fss s) w k stk f0 tl Hnd Ha Hit Hsub Hsup Hndl)
+           as (l1 & l2 & EL & Hna1 & Hna2 & Hkept & Hndk & Hf0k).
+    all: match goal with
+         | |- res_rel_g (fun f => compute_next_state _ f _ _ ?e) _ =>
+             destruct (string_in (event_type e) default_triggers) eqn:Htr; cbn [negb];
+             [|rewrite <- Hc; eapply (run_nontrigger_g s w k stk f0 tl l1 l2 b0 lp0); eauto; exact I];
+             destruct (wait_match w e) eqn:Hm;
+             [rewrite <- Hc; eapply (run_match_g s w k stk f0 tl l1 l2 b0 lp0); eauto; exact I|];
+             destruct (actionable w) eqn:Hact; rewrite <- Hc;
+             [eapply (run_abort_g s w); eauto; exact I
+             |eapply (run_stay_g s w k stk f0 tl l1 l2 b0 lp0); eauto; exact I]
+         end.
+  Qed.
+
+  Lemma R_g_stop : forall s sp, R_g s sp ->
+    R_g (st_set_fss s []) {| sp_st := Idle; sp_ctx := sp_ctx sp; sp_upd := sp_upd sp; sp_next := sp_next sp |}.
+  Proof.
+    intros s sp (Hc & Hu & Hn & Hnw & Hok & Hshape). unfold R_g. cbn [sp_st sp_ctx sp_upd sp_next]. simpl.
+    split; [exact Hc|split; [exact Hu|split; [exact Hn|split; [exact Hnw|split; [|constructor]]]]].
+    unfold fss_ok. simpl. split; [constructor|split; constructor].
+  Qed.
+
+  Lemma run_events_sim_g : forall fuel l s sp,
+    R_g s sp -> no_hide l ->
+    res_rel_g (fun f => run_events o f cs s l) (spec_run fuel p sp l).
+  Proof.
+    intros fuel. induction l as [|e rest IH]; intros s sp HR Hnh.
+    - simpl. exists s. split; [exact HR|apply evl_const].
+    - inversion Hnh as [|? ? He Hrest]; subst.
+      pose proof (cns_sim_g fuel s sp e HR He) as H1.
+      cbn [spec_run]. destruct (spec_event fuel p sp e) as [sp1| |]; cbn [bind res_rel_g] in *; auto.
+      + destruct H1 as (s1 & HR1 & F1 & HF1).
+        assert (HR1' : R_g (if is_bot_stop e then st_set_fss s1 [] else s1)
+                           (if is_bot_stop e
+                            then {| sp_st := Idle; sp_ctx := sp_ctx sp1; sp_upd := sp_upd sp1; sp_next := sp_next sp1 |}
+                            else sp1)).
+        { destruct (is_bot_stop e); [apply R_g_stop|]; exact HR1. }
+        pose proof (IH _ _ HR1' Hrest) as H2.
+        destruct (spec_run fuel p _ rest) as [sp2| |]; cbn [res_rel_g] in *; auto.
+        * destruct H2 as (s2 & HR2 & F2 & HF2). exists s2. split; [exact HR2|].
+          exists (Nat.max F1 F2). intros f Hf. cbn [run_events]. rewrite HF1 by lia. cbn [bind]. apply HF2. lia.
+        * destruct H2 as (F2 & HF2). exists (Nat.max F1 F2). intros f Hf.
+          cbn [run_events]. rewrite HF1 by lia. cbn [bind]. apply HF2. lia.
+      + destruct H1 as (F1 & HF1). exists F1. intros f Hf. cbn [run_events]. rewrite HF1 by lia. reflexivity.
+  Qed.
+
+  Lemma final_steps_R_g : forall s sp actual,
+    R_g s sp -> final_steps s actual = Ok (spec_steps sp actual).
+  Proof.
+    intros s sp actual (Hc & Hu & Hn & Hnw & _ & _). unfold final_steps, spec_steps.
+    rewrite Hn, Hu.
+    destruct (sp_next sp) as [w|] eqn:En; cbn [option_map bind].
+    - destruct (Hnw w eq_refl) as (Hw & Ha). rewrite (step_of_wait_ok w Hw Ha). cbn [bind].
+      destruct actual; [reflexivity|]. destruct (is_bot_stop _); reflexivity.
+    - destruct actual; [rewrite app_nil_r; reflexivity|]. destruct (is_bot_stop _); [reflexivity|].
+      rewrite app_nil_r. reflexivity.
+  Qed.
+
+  Lemma R_g_init : R_g init_state spec_init.
+  Proof.
+    unfold R_g, init_state, spec_init. simpl.
+    split; [reflexivity|split; [reflexivity|split; [reflexivity|split; [|split; [|constructor]]]]].
+    - intros w E; discriminate.
+    - unfold fss_ok. simpl. split; [constructor|split; constructor].
+  Qed.
+
+  Theorem compile_correct_all : forall fuel hist r,
+    next_steps fuel p hist = r -> r <> Fuel ->
+    exists F, forall f, (F <= f)%nat -> compute_next_steps o f cs hist = r.
+  Proof.
+    intros fuel hist r Hr Hnf. unfold next_steps in Hr. unfold compute_next_steps.
+    destruct (preprocess hist []) as [actual| |] eqn:Ep; cbn [bind] in *.
+    - assert (Hnh : no_hide actual) by (eapply preprocess_no_hide; [exact Ep|constructor]).
+      pose proof (run_events_sim_g fuel actual init_state spec_init R_g_init Hnh) as H.
+      destruct (spec_run fuel p spec_init actual) as [sp| |]; cbn [bind res_rel_g] in *.
+      + destruct H as (s & HR & F & HF). exists F. intros f Hf. rewrite HF by exact Hf. cbn [bind].
+        rewrite (final_steps_R_g _ _ _ HR). exact Hr.
+      + destruct H as (F & HF). exists F. intros f Hf. rewrite HF by exact Hf. exact Hr.
+      + congruence.
+    - exists 0%nat. intros; exact Hr.
+    - congruence.
+  Qed.
 End ProgS.
+
+(* ------------------------------------------------------------------ the statements Props/C14.v uses *)
+
+From NG Require Import Gen.C14Consts.
+Open Scope list_scope.
+Open Scope Z_scope.
+
+(* the full statement of Sim_proofs.compile_correct_statement: subflow calls included *)
+Theorem compile_correct_full :
+  start_marks_completed = true -> call_records_active_only = true -> compile_correct_statement.
+Proof.
+  intros Hmark Hguard p fuel hist r Hwf Hr Hnf.
+  exact (compile_correct_all p opts_now Hwf Hmark Hguard fuel hist r Hr Hnf).
+Qed.
+
+Theorem leave_full : forall p fuel hist w k stk c ev,
+  start_marks_completed = true -> call_records_active_only = true ->
+  wf_prog p = true ->
+  follows_to fuel p hist w k stk c ->
+  match ev with EvStartAct | EvCtx _ | EvHide => False | _ => True end ->
+  string_in (event_type ev) default_triggers = true ->
+  wait_match w ev = false ->
+  exists F, forall f, (F <= f)%nat -> steps_now f (compile_prog p) (hist ++ [ev]) = Ok [].
+Proof.
+  intros p fuel hist w k stk c ev Hmark Hguard Hwf Hfol Hpl Htr Hm.
+  eapply (compile_correct_full Hmark Hguard); eauto.
+  - eapply spec_leave; eauto.
+  - congruence.
+Qed.
